@@ -122,13 +122,24 @@ theorem lineStartsFrom_no_nl (i : Nat) (a : List UInt8) (h : ∀ b ∈ a, b ≠ 
 
 /-! ### the core invariant -/
 
-/-- every rune re-encodes to as many bytes as it was decoded from (true of well-formed UTF-8) -/
-def Valid (rs : List Rn) : Prop := ∀ c ∈ rs, (enc c.r).length = c.w
+/-- the error `e` was positioned at an offset `o ≤ p` of the file and carries exactly the line and
+    column that `SourcePos` computes for `o` on a complete line table: line = 1 + newlines before
+    `o`, column = 1 + the byte fold since the line start -/
+def ErrAt (data : List UInt8) (p : Nat) (e : Err) : Prop :=
+  ∃ o : Nat, e.off = (o : Int) ∧ o ≤ p ∧ e.line = Spec.Lex.specLine data o ∧
+    e.col = (slice data (Spec.Lex.lineStart data o) o).foldl colStep 0 + 1
 
-/-- Position bookkeeping, line table and error offsets. `X` is an extra cleanliness condition
-    under which the line table is claimed complete (inside a string literal: no escape error is
-    pending). `rs` are the runes still to be read. -/
-structure Core (data : List UInt8) (X : Prop) (st : St) (rs : List Rn) : Prop where
+theorem ErrAt.mono {data p p' e} (h : ErrAt data p e) (hp : p ≤ p') : ErrAt data p' e := by
+  obtain ⟨o, a, b, c, d⟩ := h
+  exact ⟨o, a, Nat.le_trans b hp, c, d⟩
+
+theorem ErrAt.bounds {data p e} (h : ErrAt data p e) : 0 ≤ e.off ∧ e.off ≤ (p : Int) := by
+  obtain ⟨o, a, b, _, _⟩ := h
+  omega
+
+/-- Position bookkeeping, line table and error offsets. `rs` are the runes still to be read.
+    The line table is complete for everything read so far (`lines_eq`). -/
+structure Core (data : List UInt8) (st : St) (rs : List Rn) : Prop where
   hdata : st.fi.data = data
   pos_eq : st.pos + (flat rs).length = data.length
   data_eq : data.drop st.pos = flat rs
@@ -136,15 +147,12 @@ structure Core (data : List UInt8) (X : Prop) (st : St) (rs : List Rn) : Prop wh
   prev_le : st.prevOffset ≤ st.pos
   lines_hd : ∃ t, st.fi.lines = 0 :: t
   lines_le : ∀ l ∈ st.fi.lines, l ≤ st.pos
-  lines_clean : st.errs = [] → X → st.fi.lines = 0 :: lineStartsFrom 0 (data.take st.pos)
-  errs_ok : ∀ e ∈ st.errs, 0 ≤ e.off ∧ e.off ≤ (st.pos : Int)
+  lines_eq : st.fi.lines = 0 :: lineStartsFrom 0 (data.take st.pos)
+  errs_ok : ∀ e ∈ st.errs, ErrAt data st.pos e
   herr_errs : st.herr = true → st.errs ≠ []
   nopanic : st.panicked = false
 
-theorem Core.weaken {data X X' st rs} (h : Core data X st rs) (hx : X' → X) : Core data X' st rs :=
-  { h with lines_clean := fun he hx' => h.lines_clean he (hx hx') }
-
-theorem Core.pos_le {data X st rs} (h : Core data X st rs) : st.pos ≤ data.length := by
+theorem Core.pos_le {data st rs} (h : Core data st rs) : st.pos ≤ data.length := by
   have := h.pos_eq; omega
 
 theorem take_add_bytes (data : List UInt8) (pos : Nat) (bytes rest : List UInt8)
@@ -153,38 +161,42 @@ theorem take_add_bytes (data : List UInt8) (pos : Nat) (bytes rest : List UInt8)
   rw [List.take_add, h]; simp
 
 /-- consuming a rune; the line table stays complete when the rune is not a newline -/
-theorem Core.adv {data X st c rs} (h : Core data X st (c :: rs)) (hc : c.r ≠ 10) :
-    Core data X (adv st c) rs := by
+theorem Core.adv {data st c rs} (h : Core data st (c :: rs)) (hc : c.r ≠ 10) :
+    Core data (adv st c) rs := by
   have hok := h.rok c (by simp)
   have hd := h.data_eq
   have hp := h.pos_eq
   simp only [flat_cons, List.length_append] at hd hp
   refine { hdata := h.hdata, pos_eq := ?_, data_eq := ?_, rok := ?_, prev_le := ?_, lines_hd := h.lines_hd,
-           lines_le := ?_, lines_clean := ?_, errs_ok := ?_, herr_errs := h.herr_errs, nopanic := h.nopanic }
+           lines_le := ?_, lines_eq := ?_, errs_ok := ?_, herr_errs := h.herr_errs, nopanic := h.nopanic }
   · simp only [Lex.adv, Rn.w]; omega
   · simp only [Lex.adv, Rn.w]
     rw [← List.drop_drop, hd]; simp
   · intro x hx; exact h.rok x (by simp [hx])
   · have := h.prev_le; simp only [Lex.adv]; omega
   · intro l hl; have := h.lines_le l hl; simp only [Lex.adv]; omega
-  · intro he hx
-    have := h.lines_clean he hx
+  · have := h.lines_eq
     simp only [Lex.adv, Rn.w]
     rw [take_add_bytes data st.pos c.bytes (flat rs) hd, lineStartsFrom_append,
       lineStartsFrom_no_nl _ c.bytes (hok.no_nl hc)]
     simpa using this
   · intro e he
-    have := h.errs_ok e he
-    simp only [Lex.adv]; omega
+    exact (h.errs_ok e he).mono (by simp [Lex.adv])
 
-/-- consuming any rune: position facts survive, completeness of the line table is given up -/
-theorem Core.adv_any {data X st c rs} (h : Core data X st (c :: rs)) :
-    Core data False (Lex.adv st c) rs := by
+theorem getLast?_mem {α} (l : List α) (x : α) (h : l.getLast? = some x) : x ∈ l := by
+  exact List.mem_of_getLast? h
+
+/-- the position facts after consuming any rune (the line table is dealt with by the caller) -/
+theorem Core.adv_facts {data st c rs} (h : Core data st (c :: rs)) :
+    (Lex.adv st c).pos + (flat rs).length = data.length ∧
+    data.drop (Lex.adv st c).pos = flat rs ∧
+    (∀ x ∈ rs, RnOk x) ∧ (Lex.adv st c).prevOffset ≤ (Lex.adv st c).pos ∧
+    (∀ l ∈ (Lex.adv st c).fi.lines, l ≤ (Lex.adv st c).pos) ∧
+    (∀ e ∈ (Lex.adv st c).errs, ErrAt data (Lex.adv st c).pos e) := by
   have hd := h.data_eq
   have hp := h.pos_eq
   simp only [flat_cons, List.length_append] at hd hp
-  refine { hdata := h.hdata, pos_eq := ?_, data_eq := ?_, rok := ?_, prev_le := ?_, lines_hd := h.lines_hd,
-           lines_le := ?_, lines_clean := fun _ hf => hf.elim, errs_ok := ?_, herr_errs := h.herr_errs, nopanic := h.nopanic }
+  refine ⟨?_, ?_, ?_, ?_, ?_, ?_⟩
   · simp only [Lex.adv, Rn.w]; omega
   · simp only [Lex.adv, Rn.w]
     rw [← List.drop_drop, hd]; simp
@@ -192,20 +204,15 @@ theorem Core.adv_any {data X st c rs} (h : Core data X st (c :: rs)) :
   · have := h.prev_le; simp only [Lex.adv]; omega
   · intro l hl; have := h.lines_le l hl; simp only [Lex.adv]; omega
   · intro e he
-    have := h.errs_ok e he
-    simp only [Lex.adv]; omega
-
-
-theorem getLast?_mem {α} (l : List α) (x : α) (h : l.getLast? = some x) : x ∈ l := by
-  exact List.mem_of_getLast? h
+    exact (h.errs_ok e he).mono (by simp [Lex.adv])
 
 /-- `maybeNewLine` after consuming `c` never panics and keeps the line table complete -/
-theorem Core.maybeNewLine {data X st c rs} (h : Core data X st (c :: rs)) :
-    Core data X (Lex.maybeNewLine (Lex.adv st c) c) rs := by
+theorem Core.maybeNewLine {data st c rs} (h : Core data st (c :: rs)) :
+    Core data (Lex.maybeNewLine (Lex.adv st c) c) rs := by
   by_cases hc : c.r = 10
   · have hok := h.rok c (by simp)
     have hb := hok.nl_bytes hc
-    have ha := h.adv_any
+    obtain ⟨a1, a2, a3, a4, a5, a6⟩ := h.adv_facts
     have hd := h.data_eq
     simp only [flat_cons, hb] at hd
     have hpos : (Lex.adv st c).pos = st.pos + 1 := by simp [Lex.adv, Rn.w, hb]
@@ -216,22 +223,22 @@ theorem Core.maybeNewLine {data X st c rs} (h : Core data X st (c :: rs)) :
       · simp [Lex.adv, List.getLast?_eq_some_getLast hne]
       · exact h.lines_le _ (List.getLast_mem hne)
     obtain ⟨last, hl1, hl2⟩ := hlast
+    have hdata : (Lex.adv st c).fi.data = data := h.hdata
     have hlen : ¬ ((Lex.adv st c).pos > (Lex.adv st c).fi.data.length) := by
-      have := ha.pos_le; rw [ha.hdata]; omega
+      rw [hdata]; omega
     have hnl : ¬ ((Lex.adv st c).pos ≤ last) := by omega
     simp only [Lex.maybeNewLine, hc, if_true, addLine, hlen, if_false, hl1, hnl]
-    refine { hdata := ha.hdata, pos_eq := ha.pos_eq, data_eq := ha.data_eq, rok := ha.rok, prev_le := ha.prev_le,
-             lines_hd := ?_, lines_le := ?_, lines_clean := ?_, errs_ok := ha.errs_ok, herr_errs := ha.herr_errs,
-             nopanic := ha.nopanic }
+    refine { hdata := hdata, pos_eq := a1, data_eq := a2, rok := a3, prev_le := a4,
+             lines_hd := ?_, lines_le := ?_, lines_eq := ?_, errs_ok := a6, herr_errs := h.herr_errs,
+             nopanic := h.nopanic }
     · exact ⟨t ++ [(Lex.adv st c).pos], by simp [Lex.adv, ht]⟩
     · intro l hl
       simp only [List.mem_append, List.mem_singleton] at hl
       rcases hl with hl | hl
-      · exact ha.lines_le l hl
+      · exact a5 l hl
       · show l ≤ (Lex.adv st c).pos
         omega
-    · intro he hx
-      have := h.lines_clean he hx
+    · have := h.lines_eq
       show (Lex.adv st c).fi.lines ++ [(Lex.adv st c).pos] = 0 :: lineStartsFrom 0 (List.take (Lex.adv st c).pos data)
       simp only [Lex.adv] at this ⊢
       rw [this]
@@ -252,20 +259,28 @@ theorem sourcePos_some (fi : FI) (off : Nat) (t : List Nat) (hl : fi.lines = 0 :
     if_true, List.length_cons, Nat.add_eq_zero_iff, Nat.succ_ne_self, and_false, hlen]
   exact ⟨_, _, rfl, by omega⟩
 
-theorem Core.handleError {data X st rs} (h : Core data X st rs) (e : Err)
-    (he : 0 ≤ e.off ∧ e.off ≤ (st.pos : Int)) :
-    Core data X (Lex.handleError st e).1 rs ∧ (Lex.handleError st e).1.errs ≠ [] ∧
+/-- an error positioned by `SourcePos` at an offset already read carries the specified position -/
+theorem Core.errAt {data st rs} (h : Core data st rs) (cls : EC) (off l c : Nat) (ho : off ≤ st.pos)
+    (hsp : sourcePos st.fi (off : Int) = some (l, c)) : ErrAt data st.pos ⟨cls, off, l, c⟩ := by
+  have hl : LinesUpTo st.fi st.pos := by rw [LinesUpTo, h.hdata]; exact h.lines_eq
+  have := sourcePos_fold st.fi st.pos off hl ho (by rw [h.hdata]; exact h.pos_le)
+  rw [hsp, h.hdata] at this
+  simp only [Option.some.injEq, Prod.mk.injEq] at this
+  exact ⟨off, rfl, ho, this.1, this.2⟩
+
+theorem Core.handleError {data st rs} (h : Core data st rs) (e : Err)
+    (he : ErrAt data st.pos e) :
+    Core data (Lex.handleError st e).1 rs ∧ (Lex.handleError st e).1.errs ≠ [] ∧
     (Lex.handleError st e).1.pos = st.pos ∧ (Lex.handleError st e).1.fi = st.fi := by
   by_cases hh : st.herr = true
   · have : Lex.handleError st e = (st, false) := by simp [Lex.handleError, hh]
     rw [this]
     exact ⟨h, h.herr_errs hh, rfl, rfl⟩
-  · have key : ∀ b : Bool, Core data X { st with errs := st.errs ++ [e], herr := b } rs := by
+  · have key : ∀ b : Bool, Core data { st with errs := st.errs ++ [e], herr := b } rs := by
       intro b
       refine { hdata := h.hdata, pos_eq := h.pos_eq, data_eq := h.data_eq, rok := h.rok, prev_le := h.prev_le,
-               lines_hd := h.lines_hd, lines_le := h.lines_le, lines_clean := ?_, errs_ok := ?_,
+               lines_hd := h.lines_hd, lines_le := h.lines_le, lines_eq := h.lines_eq, errs_ok := ?_,
                herr_errs := ?_, nopanic := h.nopanic }
-      · intro hc; simp at hc
       · intro x hx
         simp only [List.mem_append, List.mem_singleton] at hx
         rcases hx with hx | hx
@@ -310,55 +325,8 @@ theorem parseUintGo_ok_digits (base maxVal : Nat) (n : Nat) (s : List UInt8) (m 
 
 theorem digitVal_nl : digitVal 10 = none := by decide
 
-theorem parseInt_some_no_nl (s : List UInt8) (base bits : Nat) (i : Int)
-    (h : parseInt s base bits = some i) : ∀ b ∈ s, b ≠ 10 := by
-  cases s with
-  | nil => simp [parseInt] at h
-  | cons c rest =>
-    have key : ∀ body, (∃ un, parseUint body base bits = .ok un) → ∀ b ∈ body, b ≠ 10 := by
-      intro body ⟨un, hu⟩ b hb hb10
-      simp only [parseUint] at hu
-      split at hu
-      · simp at hu
-      · have := parseUintGo_ok_digits _ _ _ _ _ hu b hb
-        rw [hb10, digitVal_nl] at this
-        simp at this
-    simp only [parseInt] at h
-    by_cases h43 : c = 43
-    · simp only [h43, if_true] at h
-      cases hp : parseUint rest base bits with
-      | «syntax» => simp [hp] at h
-      | range => simp [hp] at h
-      | ok un =>
-        intro b hb
-        simp only [List.mem_cons] at hb
-        rcases hb with rfl | hb
-        · rw [h43]; decide
-        · exact key rest ⟨un, hp⟩ b hb
-    · by_cases h45 : c = 45
-      · simp only [h45, if_true] at h
-        have hne : ¬ ((45 : UInt8) = 43) := by decide
-        simp only [hne, if_false] at h
-        cases hp : parseUint rest base bits with
-        | «syntax» => simp [hp] at h
-        | range => simp [hp] at h
-        | ok un =>
-          intro b hb
-          simp only [List.mem_cons] at hb
-          rcases hb with rfl | hb
-          · rw [h45]; decide
-          · exact key rest ⟨un, hp⟩ b hb
-      · simp only [h43, h45, if_false] at h
-        cases hp : parseUint (c :: rest) base bits with
-        | «syntax» => simp [hp] at h
-        | range => simp [hp] at h
-        | ok un => exact key (c :: rest) ⟨un, hp⟩
-
 theorem enc_ascii (r : Nat) (h : r < 0x80) : enc r = [UInt8.ofNat r] := by
   simp [enc, Utf8.encodeRune, h]
-
-theorem enc_nl_mem (r : Nat) (h : r = 10) : (10 : UInt8) ∈ enc r := by
-  subst h; simp [enc, Utf8.encodeRune]
 
 /-- what `readU` returns is a prefix of the input, at most `n` long -/
 theorem readU_some (q : Nat) (n : Nat) (rs u : List Rn) (h : readU q n rs = some u) :
@@ -383,204 +351,118 @@ theorem readU_some (q : Nat) (n : Nat) (rs u : List Rn) (h : readU q n rs = some
 
 /-! ### the string-literal plan -/
 
-/-- what the plan guarantees about the runes it consumes -/
+/-- the plan consumes at least the current rune and no more than there are -/
 def PlanOk (c : Rn) (rs : List Rn) (p : Nat × Act) : Prop :=
-  1 ≤ p.1 ∧ p.1 ≤ (c :: rs).length ∧
-  (match p.2 with
-   | .push _ => ∀ x ∈ (c :: rs).take p.1, x.r ≠ 10
-   | .close => ∀ x ∈ (c :: rs).take p.1, x.r ≠ 10
-   | .report _ blen => blen = (encAll ((c :: rs).take p.1)).length
-   | _ => True)
+  1 ≤ p.1 ∧ p.1 ≤ (c :: rs).length
 
-theorem encAll_cons (c : Rn) (cs : List Rn) : encAll (c :: cs) = enc c.r ++ encAll cs := by
-  simp [encAll]
-
-theorem enc_len_ascii (r : Nat) (h : r < 0x80) : (enc r).length = 1 := by
-  rw [enc_ascii r h]; rfl
-
-theorem isHexR_ne_nl (r : Nat) (h : isHexR r = true) : r ≠ 10 := by
-  intro h10; subst h10; simp [isHexR, isDigitR] at h
-
-theorem isOctR_bounds (r : Nat) (h : isOctR r = true) : 48 ≤ r ∧ r ≤ 55 := by
-  simpa [isOctR] using h
-
-theorem planHex_ok (q : Nat) (c e : Rn) (rs1 : List Rn) (hc : c.r = 92) (he : e.r = 120 ∨ e.r = 88) :
-    PlanOk c (e :: rs1) (planHex q e rs1) := by
-  have hce : (enc c.r).length = 1 := enc_len_ascii _ (by omega)
-  have hene : e.r ≠ 10 := by omega
+theorem planHex_ok (q : Nat) (c e : Rn) (rs1 : List Rn) : PlanOk c (e :: rs1) (planHex q rs1) := by
   unfold planHex
   split
   · simp [PlanOk]
-  · rename_i c1 rs2
-    split
-    · simp [PlanOk, encAll_cons, encAll, hce] <;> omega
-    · rename_i hc1
-      split
+  · split
+    · simp [PlanOk]
+    · split
       · simp [PlanOk]
       · rename_i c2 rs3
         by_cases hx : isHexR c2.r = true
         · simp only [hx, if_true]
-          split
-          · simp [PlanOk, encAll_cons, encAll, hce] <;> omega
-          · rename_i i hi
-            have hnn := parseInt_some_no_nl _ _ _ _ hi
-            have h1 : c1.r ≠ 10 := fun h => hnn 10 (by simp [enc_nl_mem c1.r h]) rfl
-            have h2 := isHexR_ne_nl _ hx
-            simp [PlanOk] <;> omega
+          split <;> simp [PlanOk]
         · simp only [hx, Bool.false_eq_true, if_false]
-          split
-          · simp [PlanOk, encAll_cons, encAll, hce] <;> omega
-          · rename_i i hi
-            have hnn := parseInt_some_no_nl _ _ _ _ hi
-            have h1 : c1.r ≠ 10 := fun h => hnn 10 (by simp [enc_nl_mem c1.r h]) rfl
-            simp [PlanOk] <;> omega
+          split <;> simp [PlanOk]
 
-theorem planOct_ok (c e : Rn) (rs1 : List Rn) (hc : c.r = 92) (he : isOctR e.r = true) :
-    PlanOk c (e :: rs1) (planOct e rs1) := by
-  have hce : (enc c.r).length = 1 := enc_len_ascii _ (by omega)
-  have hee := isOctR_bounds _ he
-  have hel : (enc e.r).length = 1 := enc_len_ascii _ (by omega)
+theorem planOct_ok (c e : Rn) (rs1 : List Rn) : PlanOk c (e :: rs1) (planOct e rs1) := by
   unfold planOct
   split
   · simp [PlanOk]
-  · rename_i c2 rs2
-    by_cases h2 : isOctR c2.r = true
-    · have h2b := isOctR_bounds _ h2
-      have h2l : (enc c2.r).length = 1 := enc_len_ascii _ (by omega)
-      simp only [h2, Bool.not_true, Bool.false_eq_true, if_false]
-      split
+  · split
+    · simp [PlanOk]
+    · split
       · simp [PlanOk]
-      · rename_i c3 rs3
-        by_cases h3 : isOctR c3.r = true
-        · have h3b := isOctR_bounds _ h3
-          have h3l : (enc c3.r).length = 1 := enc_len_ascii _ (by omega)
-          simp only [h3, Bool.not_true, Bool.false_eq_true, if_false]
-          split
-          · simp [PlanOk, encAll_cons, encAll, hce, hel, h2l, h3l]
-          · simp [PlanOk] <;> omega
-        · simp only [h3, Bool.not_false, if_true]
-          simp [PlanOk] <;> omega
-    · simp only [h2, Bool.not_false, if_true]
-      simp [PlanOk] <;> omega
+      · split
+        · simp [PlanOk]
+        · simp only
+          split <;> simp [PlanOk]
 
-theorem planUni_ok (q n : Nat) (c e : Rn) (rs1 : List Rn) (hc : c.r = 92) (he : e.r = 117 ∨ e.r = 85) :
-    PlanOk c (e :: rs1) (planUni q n rs1) := by
-  have hce : (enc c.r).length = 1 := enc_len_ascii _ (by omega)
-  have hel : (enc e.r).length = 1 := enc_len_ascii _ (by omega)
-  have hene : e.r ≠ 10 := by omega
+theorem planUni_ok (q n : Nat) (c e : Rn) (rs1 : List Rn) : PlanOk c (e :: rs1) (planUni q n rs1) := by
   unfold planUni
   split
-  · simp [PlanOk] <;> omega
+  · simp [PlanOk]; omega
   · rename_i u hu
-    obtain ⟨hpre, hun, hul⟩ := readU_some q n rs1 u hu
-    have htake : (c :: e :: rs1).take (2 + u.length) = c :: e :: u := by
-      have : 2 + u.length = u.length + 1 + 1 := by omega
-      rw [this, List.take_succ_cons, List.take_succ_cons, ← hpre]
-    have hrep : ∀ cls, PlanOk c (e :: rs1) (2 + u.length, Act.report cls (2 + (encAll u).length)) := by
-      intro cls
-      refine ⟨by simp; omega, by simp; omega, ?_⟩
-      simp only [htake, encAll_cons, List.length_append, hce, hel]; omega
-    have hpush : ∀ i bs, parseInt (encAll u) 16 32 = some i →
-        PlanOk c (e :: rs1) (2 + u.length, Act.push bs) := by
-      intro i bs hi
-      refine ⟨by simp; omega, by simp; omega, ?_⟩
-      simp only [htake]
-      intro x hx
-      simp only [List.mem_cons] at hx
-      rcases hx with rfl | rfl | hx
-      · omega
-      · exact hene
-      · intro hx10
-        have hnn := parseInt_some_no_nl _ _ _ _ hi
-        refine hnn 10 ?_ rfl
-        simp only [encAll, List.mem_flatMap]
-        exact ⟨x, hx, enc_nl_mem _ hx10⟩
+    obtain ⟨_, _, hul⟩ := readU_some q n rs1 u hu
+    have hk : ∀ a : Act, PlanOk c (e :: rs1) (2 + u.length, a) := by
+      intro a; simp [PlanOk]; omega
     simp only
     split
-    · exact hrep _
+    · exact hk _
     · split
-      · exact hrep _
-      · rename_i i hi
-        split
-        · exact hrep _
-        · exact hpush i _ hi
+      · split
+        · exact hk _
+        · exact hk _
+      · exact hk _
 
-theorem planEsc_ok (q : Nat) (c e : Rn) (rs1 : List Rn) (hc : c.r = 92) :
-    PlanOk c (e :: rs1) (planEsc q e rs1) := by
-  have hce : (enc c.r).length = 1 := enc_len_ascii _ (by omega)
-  have hpush : ∀ bs, e.r ≠ 10 → PlanOk c (e :: rs1) (2, Act.push bs) := by
-    intro bs hne
-    refine ⟨by omega, by simp, ?_⟩
-    intro x hx
-    simp only [List.take_succ_cons, List.take_zero, List.mem_cons, List.not_mem_nil, or_false] at hx
-    rcases hx with rfl | rfl
-    · omega
-    · exact hne
+theorem planEsc_ok (q : Nat) (c e : Rn) (rs1 : List Rn) : PlanOk c (e :: rs1) (planEsc q e rs1) := by
+  have h2 : ∀ a : Act, PlanOk c (e :: rs1) (2, a) := by intro a; simp [PlanOk]
   unfold planEsc
   by_cases h1 : e.r = 120 ∨ e.r = 88
-  · rw [if_pos h1]; exact planHex_ok q c e rs1 hc h1
+  · rw [if_pos h1]; exact planHex_ok q c e rs1
   rw [if_neg h1]
-  by_cases h2 : isOctR e.r = true
-  · rw [if_pos h2]; exact planOct_ok c e rs1 hc h2
-  rw [if_neg h2]
+  by_cases h2' : isOctR e.r = true
+  · rw [if_pos h2']; exact planOct_ok c e rs1
+  rw [if_neg h2']
   by_cases h3 : e.r = 117
-  · rw [if_pos h3]; exact planUni_ok q 4 c e rs1 hc (Or.inl h3)
+  · rw [if_pos h3]; exact planUni_ok q 4 c e rs1
   rw [if_neg h3]
   by_cases h4 : e.r = 85
-  · rw [if_pos h4]; exact planUni_ok q 8 c e rs1 hc (Or.inr h4)
+  · rw [if_pos h4]; exact planUni_ok q 8 c e rs1
   rw [if_neg h4]
   by_cases g0 : e.r = 97
-  · rw [if_pos g0]; apply hpush; omega
+  · rw [if_pos g0]; exact h2 _
   rw [if_neg g0]
   by_cases g1 : e.r = 98
-  · rw [if_pos g1]; apply hpush; omega
+  · rw [if_pos g1]; exact h2 _
   rw [if_neg g1]
   by_cases g2 : e.r = 102
-  · rw [if_pos g2]; apply hpush; omega
+  · rw [if_pos g2]; exact h2 _
   rw [if_neg g2]
   by_cases g3 : e.r = 110
-  · rw [if_pos g3]; apply hpush; omega
+  · rw [if_pos g3]; exact h2 _
   rw [if_neg g3]
   by_cases g4 : e.r = 114
-  · rw [if_pos g4]; apply hpush; omega
+  · rw [if_pos g4]; exact h2 _
   rw [if_neg g4]
   by_cases g5 : e.r = 116
-  · rw [if_pos g5]; apply hpush; omega
+  · rw [if_pos g5]; exact h2 _
   rw [if_neg g5]
   by_cases g6 : e.r = 118
-  · rw [if_pos g6]; apply hpush; omega
+  · rw [if_pos g6]; exact h2 _
   rw [if_neg g6]
   by_cases g7 : e.r = 92
-  · rw [if_pos g7]; apply hpush; omega
+  · rw [if_pos g7]; exact h2 _
   rw [if_neg g7]
   by_cases g8 : e.r = 39
-  · rw [if_pos g8]; apply hpush; omega
+  · rw [if_pos g8]; exact h2 _
   rw [if_neg g8]
   by_cases g9 : e.r = 34
-  · rw [if_pos g9]; apply hpush; omega
+  · rw [if_pos g9]; exact h2 _
   rw [if_neg g9]
   by_cases g10 : e.r = 63
-  · rw [if_pos g10]; apply hpush; omega
+  · rw [if_pos g10]; exact h2 _
   rw [if_neg g10]
-  refine ⟨by omega, by simp, ?_⟩
-  simp [encAll, hce]
+  exact h2 _
 
 theorem strPlan_ok (q : Nat) (c : Rn) (rs : List Rn) : PlanOk c rs (strPlan q c rs) := by
   unfold strPlan
   split
   · simp [PlanOk]
   split
-  · rename_i hcq; simp [PlanOk]; omega
+  · simp [PlanOk]
   split
-  · rename_i h0
-    simp [PlanOk, encAll_cons, encAll, enc_len_ascii, h0]
+  · simp [PlanOk]
   split
-  · rename_i h92
-    split
+  · split
     · simp [PlanOk]
-    · exact planEsc_ok q c _ _ h92
-  · simp [PlanOk]; assumption
-
+    · exact planEsc_ok q c _ _
+  · simp [PlanOk]
 
 /-! ### frames: which fields a step leaves alone -/
 
@@ -637,338 +519,13 @@ theorem advAll_errs (st : St) (cs : List Rn) :
     have := ih (Lex.adv st c)
     simpa [Lex.adv] using this
 
-theorem Core.advAll_clean {data X st cs rs} (h : Core data X st (cs ++ rs)) (hc : ∀ x ∈ cs, x.r ≠ 10) :
-    Core data X (advAll st cs) rs := by
+theorem Core.advAll_clean {data st cs rs} (h : Core data st (cs ++ rs)) (hc : ∀ x ∈ cs, x.r ≠ 10) :
+    Core data (advAll st cs) rs := by
   induction cs generalizing st with
   | nil => simpa [advAll] using h
   | cons c cs ih =>
     simp only [advAll, List.foldl_cons] at ih ⊢
     exact ih (h.adv (hc c (by simp))) (fun x hx => hc x (by simp [hx]))
-
-theorem Core.advAll_any {data X st cs rs} (h : Core data X st (cs ++ rs)) :
-    Core data False (advAll st cs) rs := by
-  induction cs generalizing st X with
-  | nil => simpa [advAll] using h.weaken (fun hf => hf.elim)
-  | cons c cs ih =>
-    simp only [advAll, List.foldl_cons] at ih ⊢
-    exact ih h.adv_any
-
-/-- what is known about the pending escape error of `readStringLiteral` -/
-structure SSOk (st : St) (ss : SS) : Prop where
-  esc_ok : ∀ e, ss.escErr = some e → 0 ≤ e.off ∧ e.off ≤ (st.pos : Int)
-  nomore : ss.noMore = true → ss.escErr ≠ none
-
-/-- a state in which the lexer panicked: the driver loop stops there -/
-def Panicked (st : St) : Prop := st.panicked = true ∧ st.done = true
-
-theorem newEscErr_spec {data X st rs} (ss : SS) (cls : EC) (blen : Nat) (h : Core data X st rs) :
-    match Lex.newEscErr st ss cls blen with
-    | .cont st' ss' => Core data (ss'.escErr = none) st' rs ∧ SSOk st' ss' ∧ st' = st ∧ ss'.escErr ≠ none
-    | .done st' res => (Panicked st' ∧ (st.pos : Int) - (blen : Int) < 0) ∧
-        (match res with | .panic => True | _ => False) ∧ Frame st st' ∧ st'.idx = st.idx := by
-  simp only [Lex.newEscErr]
-  by_cases hneg : (st.pos : Int) - (blen : Int) < 0
-  · have : sourcePos st.fi ((st.pos : Int) - (blen : Int)) = none := by simp [sourcePos, hneg]
-    simp only [this]
-    exact ⟨⟨⟨by simp [Lex.panic], by simp [Lex.panic]⟩, hneg⟩, trivial, ⟨rfl, rfl, rfl, rfl, rfl, rfl, rfl, rfl, Nat.le_refl _⟩, rfl⟩
-  · obtain ⟨t, ht⟩ := h.lines_hd
-    have hoff : ((st.pos : Int) - (blen : Int)) = (((st.pos - blen : Nat)) : Int) := by omega
-    have hle : st.pos - blen ≤ st.fi.data.length := by
-      have := h.pos_le; rw [h.hdata]; omega
-    obtain ⟨l, c, hsp, _⟩ := sourcePos_some st.fi (st.pos - blen) t ht hle
-    rw [hoff, hsp]
-    simp only
-    refine ⟨h.weaken (fun hx => by simp at hx), ⟨?_, ?_⟩, trivial, by simp⟩
-    · intro e he
-      simp only [Option.some.injEq] at he
-      subst he
-      simp only; omega
-    · intro _; simp
-
-theorem frame_handleError (st : St) (e : Err) :
-    Frame st (Lex.handleError st e).1 ∧ (Lex.handleError st e).1.idx = st.idx := by
-  unfold Lex.handleError
-  split
-  · exact ⟨Frame.refl st, rfl⟩
-  · split <;> exact ⟨⟨rfl, rfl, rfl, rfl, rfl, rfl, rfl, rfl, Nat.le_refl _⟩, rfl⟩
-
-/-- `reportErr` on a state that has just consumed the bad escape: it either records a new pending
-    escape error whose offset lies in the file, or panics because `pos - len(badEscape) < 0` -/
-theorem reportErr_spec {data X st rs} (ss : SS) (cls : EC) (blen : Nat)
-    (h : Core data X st rs) (hs : SSOk st ss) :
-    match Lex.reportErr st ss cls blen with
-    | .cont st' ss' => Core data (ss'.escErr = none) st' rs ∧ SSOk st' ss' ∧ Frame st st' ∧
-        st'.idx = st.idx ∧ ss'.escErr ≠ none
-    | .done st' res => (Panicked st' ∧ (st.pos : Int) - (blen : Int) < 0) ∧
-        (match res with | .panic => True | _ => False) ∧ Frame st st' ∧ st'.idx = st.idx := by
-  unfold Lex.reportErr
-  by_cases hnm : ss.noMore = true
-  · simp only [hnm, if_true]
-    have hne := hs.nomore hnm
-    exact ⟨h.weaken (fun hx => absurd hx hne), hs, Frame.refl st, trivial, hne⟩
-  · simp only [hnm, Bool.false_eq_true, if_false]
-    cases he : ss.escErr with
-    | none =>
-      simp only
-      have := newEscErr_spec (data := data) (X := X) (rs := rs) ss cls blen h
-      split at this
-      · rename_i st' ss' heq
-        obtain ⟨a, b, c, d⟩ := this
-        subst c
-        exact ⟨a, b, Frame.refl _, rfl, d⟩
-      · rename_i st' res heq
-        exact this
-    | some e =>
-      simp only
-      obtain ⟨hc, _, hp, hf⟩ := h.handleError e (hs.esc_ok e he)
-      obtain ⟨hfr, hidx⟩ := frame_handleError st e
-      have := newEscErr_spec (data := data) (X := X) (rs := rs)
-        { buf := ss.buf, escErr := some e, noMore := !(Lex.handleError st e).2 } cls blen hc
-      split at this
-      · rename_i st' ss' heq
-        obtain ⟨a, b, c, d⟩ := this
-        subst c
-        exact ⟨a, b, hfr, hidx, d⟩
-      · rename_i st' res heq
-        rw [hp] at this
-        obtain ⟨a, b, c, d⟩ := this
-        exact ⟨a, b, hfr.trans c, by rw [d, hidx]⟩
-
-
-theorem SSOk.mono {st st' : St} {ss : SS} (h : SSOk st ss) (hp : st.pos ≤ st'.pos) : SSOk st' ss :=
-  ⟨fun e he => by have := h.esc_ok e he; omega, h.nomore⟩
-
-theorem valid_encAll_len (cs : List Rn) (h : Valid cs) : (encAll cs).length = (flat cs).length := by
-  induction cs with
-  | nil => simp [encAll]
-  | cons c cs ih =>
-    have h1 := h c (by simp)
-    have h2 := ih (fun x hx => h x (by simp [hx]))
-    simp only [encAll_cons, flat_cons, List.length_append, h1, h2, Rn.w]
-
-/-- how a finished `readStringLiteral` leaves the lexer, `k` runes after `rs0` began -/
-def StrPost (data : List UInt8) (st0 : St) (k : Nat) (rs0 : List Rn) (st' : St) (res : StrRes) : Prop :=
-  st'.idx = st0.idx + k ∧ Frame st0 st' ∧
-  match res with
-  | .panic => Panicked st' ∧ ¬ Valid (rs0.take k)
-  | .ok _ => Core data True st' (rs0.drop k)
-  | .plain _ => Core data False st' (rs0.drop k)
-  | .pos e => Core data False st' (rs0.drop k) ∧ (0 ≤ e.off ∧ e.off ≤ (st'.pos : Int))
-
-theorem strIter_spec {data : List UInt8} (q : Nat) (c : Rn) (rs : List Rn) (st : St) (ss : SS)
-    (h : Core data (ss.escErr = none) st (c :: rs)) (hs : SSOk st ss) :
-    1 ≤ (strPlan q c rs).1 ∧ (strPlan q c rs).1 ≤ (c :: rs).length ∧
-    match strIter q st ss c rs with
-    | .cont st' ss' => Core data (ss'.escErr = none) st' ((c :: rs).drop (strPlan q c rs).1) ∧
-        SSOk st' ss' ∧ Frame st st' ∧ st'.idx = st.idx + (strPlan q c rs).1
-    | .done st' res => StrPost data st (strPlan q c rs).1 (c :: rs) st' res := by
-  obtain ⟨hk1, hk2, hact⟩ := strPlan_ok q c rs
-  refine ⟨hk1, hk2, ?_⟩
-  generalize hp : strPlan q c rs = p at hk1 hk2 hact
-  obtain ⟨k, act⟩ := p
-  simp only at hk1 hk2 hact
-  have hsplit : c :: rs = (c :: rs).take k ++ (c :: rs).drop k := (List.take_append_drop k _).symm
-  have hlen : ((c :: rs).take k).length = k := by
-    simp only [List.length_cons] at hk2; simp only [List.length_take, List.length_cons]; omega
-  have hidx : (advAll st ((c :: rs).take k)).idx = st.idx + k := by rw [advAll_idx, hlen]
-  have hfr := frame_advAll st ((c :: rs).take k)
-  have hany : Core data False (advAll st ((c :: rs).take k)) ((c :: rs).drop k) := by
-    have h' := h; rw [hsplit] at h'; exact h'.advAll_any
-  have hss : SSOk (advAll st ((c :: rs).take k)) ss := hs.mono hfr.pos_le
-  simp only [strIter, hp]
-  cases act with
-  | eol => exact ⟨hidx, hfr, hany⟩
-  | eof => exact ⟨hidx, hfr, hany⟩
-  | close =>
-    cases he : ss.escErr with
-    | some e =>
-      refine ⟨hidx, hfr, hany, ?_⟩
-      have := hs.esc_ok e he
-      have := hfr.pos_le
-      omega
-    | none =>
-      refine ⟨hidx, hfr, ?_⟩
-      have h' := h; rw [hsplit] at h'
-      exact (h'.advAll_clean hact).weaken (fun _ => he)
-  | push bs =>
-    simp only [Lex.push]
-    refine ⟨?_, ⟨hss.esc_ok, hss.nomore⟩, hfr, hidx⟩
-    have h' := h; rw [hsplit] at h'
-    exact h'.advAll_clean hact
-  | report cls blen =>
-    have := reportErr_spec (data := data) ss cls blen hany hss
-    dsimp only
-    split at this
-    · obtain ⟨a, b, c1, d, _⟩ := this
-      exact ⟨a, b, hfr.trans c1, by rw [d, hidx]⟩
-    · rename_i st' res heq
-      obtain ⟨⟨hpan, hneg⟩, hres, hfr2, hidx2⟩ := this
-      cases res with
-      | panic =>
-        refine ⟨by rw [hidx2, hidx], hfr.trans hfr2, hpan, ?_⟩
-        · intro hv
-          have := valid_encAll_len _ hv
-          rw [advAll_pos] at hneg
-          omega
-      | ok _ => exact hres.elim
-      | plain _ => exact hres.elim
-      | pos _ => exact hres.elim
-
-
-/-- outcome of `strGo q s st ss rs` (the first `s` cells of `rs` are already consumed) -/
-def GoPost (data : List UInt8) (st : St) (s : Nat) (rs : List Rn) (st' : St) (res : StrRes) : Prop :=
-  ∃ k, s ≤ k ∧ k ≤ rs.length ∧ st'.idx = st.idx + (k - s) ∧ Frame st st' ∧
-  match res with
-  | .panic => Panicked st' ∧ ¬ Valid (rs.take k)
-  | .ok _ => Core data True st' (rs.drop k)
-  | .plain _ => Core data False st' (rs.drop k)
-  | .pos e => Core data False st' (rs.drop k) ∧ (0 ≤ e.off ∧ e.off ≤ (st'.pos : Int))
-
-theorem valid_of_take_le {rs : List Rn} {a b : Nat} (hab : a ≤ b) (h : ¬ Valid (rs.take a)) :
-    ¬ Valid (rs.take b) := by
-  intro hv
-  apply h
-  intro c hc
-  apply hv c
-  have : rs.take a = (rs.take b).take a := by rw [List.take_take, Nat.min_eq_left hab]
-  rw [this] at hc
-  exact List.mem_of_mem_take hc
-
-theorem strGo_spec {data : List UInt8} (q : Nat) (rs : List Rn) :
-    ∀ (s : Nat) (st : St) (ss : SS), s ≤ rs.length →
-    Core data (ss.escErr = none) st (rs.drop s) → SSOk st ss →
-    GoPost data st s rs (strGo q s st ss rs).1 (strGo q s st ss rs).2 := by
-  induction rs with
-  | nil =>
-    intro s st ss hs h _
-    have hs0 : s = 0 := by simpa using hs
-    subst hs0
-    simp only [strGo]
-    exact ⟨0, Nat.le_refl _, Nat.le_refl _, rfl, Frame.refl st, by simpa using h.weaken (fun hf => hf.elim)⟩
-  | cons c rs ih =>
-    intro s st ss hs h hss
-    cases s with
-    | succ s =>
-      simp only [strGo]
-      have hs' : s ≤ rs.length := by simpa using hs
-      obtain ⟨k, h1, h2, h3, h4, h5⟩ := ih s st ss hs' (by simpa using h) hss
-      refine ⟨k + 1, by omega, by simp; omega, by rw [h3]; omega, h4, ?_⟩
-      cases hres : (strGo q s st ss rs).2 with
-      | panic =>
-        rw [hres] at h5
-        refine ⟨h5.1, ?_⟩
-        intro hv
-        apply h5.2
-        intro x hx
-        exact hv x (by simp [hx])
-      | ok b => rw [hres] at h5; simpa using h5
-      | plain cls => rw [hres] at h5; simpa using h5
-      | pos e => rw [hres] at h5; simpa using h5
-    | zero =>
-      simp only [List.drop_zero] at h
-      obtain ⟨hk1, hk2, hit⟩ := strIter_spec q c rs st ss h hss
-      simp only [strGo]
-      generalize hkk : (strPlan q c rs).1 = kk at hk1 hk2 hit
-      cases hstep : strIter q st ss c rs with
-      | done st' res =>
-        rw [hstep] at hit
-        simp only
-        obtain ⟨a, b, cc⟩ := hit
-        exact ⟨kk, Nat.zero_le _, hk2, by simpa using a, b, cc⟩
-      | cont st' ss' =>
-        rw [hstep] at hit
-        simp only
-        obtain ⟨hc', hss', hfr, hidx⟩ := hit
-        have hskip : st'.idx - st.idx - 1 = kk - 1 := by omega
-        rw [hskip]
-        have hlen : kk - 1 ≤ rs.length := by simp at hk2; omega
-        have hdrop : (c :: rs).drop kk = rs.drop (kk - 1) := by
-          obtain ⟨j, hj⟩ : ∃ j, kk = j + 1 := ⟨kk - 1, by omega⟩
-          subst hj; simp
-        rw [hdrop] at hc'
-        obtain ⟨k, h1, h2, h3, h4, h5⟩ := ih (kk - 1) st' ss' hlen hc' hss'
-        refine ⟨k + 1, Nat.zero_le _, by simp; omega, by rw [h3, hidx]; omega, hfr.trans h4, ?_⟩
-        cases hres : (strGo q (kk - 1) st' ss' rs).2 with
-        | panic =>
-          rw [hres] at h5
-          refine ⟨h5.1, ?_⟩
-          intro hv
-          apply h5.2
-          intro x hx
-          exact hv x (by simp [hx])
-        | ok b => rw [hres] at h5; simpa using h5
-        | plain cls => rw [hres] at h5; simpa using h5
-        | pos e => rw [hres] at h5; simpa using h5
-
-
-/-! ### errors with the position of the current token, comments -/
-
-theorem frame_errs (st : St) (errs : List Err) (herr : Bool) (toks : List Tok) (fresh : Bool) :
-    Frame st { st with errs := errs, herr := herr, toks := toks, fresh := fresh } :=
-  ⟨rfl, rfl, rfl, rfl, rfl, rfl, rfl, rfl, Nat.le_refl _⟩
-
-theorem setErrorPlain_spec {data X st rs} (cls : EC) (h : Core data X st rs) :
-    Core data True (Lex.setErrorPlain st cls) rs ∧ Frame st (Lex.setErrorPlain st cls) ∧
-    (Lex.setErrorPlain st cls).idx = st.idx ∧ (Lex.setErrorPlain st cls).errs ≠ [] := by
-  obtain ⟨t, ht⟩ := h.lines_hd
-  have hle : st.prevOffset ≤ st.fi.data.length := by
-    have := h.pos_le; have := h.prev_le; rw [h.hdata]; omega
-  obtain ⟨l, c, hsp, _⟩ := sourcePos_some st.fi st.prevOffset t ht hle
-  simp only [Lex.setErrorPlain, hsp]
-  have hp := h.prev_le
-  obtain ⟨hc, hne, hpos, hfi⟩ := h.handleError ⟨cls, st.prevOffset, l, c⟩ (by simp only; omega)
-  obtain ⟨hfr, hidx⟩ := frame_handleError st ⟨cls, st.prevOffset, l, c⟩
-  refine ⟨?_, ?_, hidx, hne⟩
-  · exact { hdata := hc.hdata, pos_eq := hc.pos_eq, data_eq := hc.data_eq, rok := hc.rok, prev_le := hc.prev_le,
-            lines_hd := hc.lines_hd, lines_le := hc.lines_le,
-            lines_clean := fun he => absurd he hne, errs_ok := hc.errs_ok,
-            herr_errs := hc.herr_errs, nopanic := hc.nopanic }
-  · exact hfr.trans ⟨rfl, rfl, rfl, rfl, rfl, rfl, rfl, rfl, Nat.le_refl _⟩
-
-theorem setErrorPos_spec {data X st rs} (e : Err) (h : Core data X st rs)
-    (he : 0 ≤ e.off ∧ e.off ≤ (st.pos : Int)) :
-    Core data True (Lex.setErrorPos st e) rs ∧ Frame st (Lex.setErrorPos st e) ∧
-    (Lex.setErrorPos st e).idx = st.idx ∧ (Lex.setErrorPos st e).errs ≠ [] := by
-  simp only [Lex.setErrorPos]
-  obtain ⟨hc, hne, hpos, hfi⟩ := h.handleError e he
-  obtain ⟨hfr, hidx⟩ := frame_handleError st e
-  refine ⟨?_, ?_, hidx, hne⟩
-  · exact { hdata := hc.hdata, pos_eq := hc.pos_eq, data_eq := hc.data_eq, rok := hc.rok, prev_le := hc.prev_le,
-            lines_hd := hc.lines_hd, lines_le := hc.lines_le,
-            lines_clean := fun he => absurd he hne, errs_ok := hc.errs_ok,
-            herr_errs := hc.herr_errs, nopanic := hc.nopanic }
-  · exact hfr.trans ⟨rfl, rfl, rfl, rfl, rfl, rfl, rfl, rfl, Nat.le_refl _⟩
-
-/-- outcome of a scanner that started at `st` with `rs` to read -/
-def ScanPost (data : List UInt8) (X : Prop) (st : St) (rs : List Rn) (st' : St) : Prop :=
-  ∃ k, k ≤ rs.length ∧ st'.idx = st.idx + k ∧ Frame st st' ∧ Core data X st' (rs.drop k)
-
-theorem lineCommentGo_spec {data X} (rs : List Rn) : ∀ (st : St), Core data X st rs →
-    ScanPost data X st rs (lineCommentGo st rs).1 ∧
-    ((lineCommentGo st rs).2 = true → (lineCommentGo st rs).1.errs ≠ []) := by
-  induction rs with
-  | nil =>
-    intro st h
-    simp only [lineCommentGo]
-    exact ⟨⟨0, Nat.le_refl _, rfl, Frame.refl st, by simpa using h⟩, by simp⟩
-  | cons c rs ih =>
-    intro st h
-    simp only [lineCommentGo]
-    by_cases h10 : c.r = 10
-    · simp only [h10, if_true]
-      exact ⟨⟨0, Nat.zero_le _, rfl, Frame.refl st, by simpa using h⟩, by simp⟩
-    · simp only [h10, if_false]
-      by_cases h0 : c.r = 0
-      · simp only [h0, if_true]
-        have ha := h.adv h10
-        obtain ⟨a, b, cc, d⟩ := setErrorPlain_spec (X := X) .controlChar ha
-        refine ⟨⟨1, by simp, by rw [cc]; simp [Lex.adv], (frame_adv st c).trans b, ?_⟩, fun _ => d⟩
-        simpa using a.weaken (fun _ => trivial)
-      · simp only [h0, if_false]
-        obtain ⟨⟨k, h1, h2, h3, h4⟩, h5⟩ := ih (Lex.adv st c) (h.adv h10)
-        refine ⟨⟨k + 1, by simp; omega, by rw [h2]; simp [Lex.adv]; omega, (frame_adv st c).trans h3, ?_⟩, h5⟩
-        simpa using h4
-
 
 theorem addLine_some (f f' : FI) (o : Nat) (h : addLine f o = some f') :
     f'.items = f.items ∧ f'.comments = f.comments ∧ f'.data = f.data := by
@@ -992,8 +549,257 @@ theorem frame_maybeNewLine (st : St) (c : Rn) :
       exact ⟨⟨h1, h2, rfl, rfl, rfl, rfl, rfl, rfl, Nat.le_refl _⟩, rfl⟩
   · exact ⟨Frame.refl st, rfl⟩
 
-theorem blockCommentGo_spec {data X} (rs : List Rn) : ∀ (st : St), Core data X st rs →
-    ScanPost data X st rs (blockCommentGo st rs).1 ∧
+theorem frame_advNL (st : St) (c : Rn) : Frame st (advNL st c) ∧ (advNL st c).idx = st.idx + 1 := by
+  obtain ⟨a, b⟩ := frame_maybeNewLine (Lex.adv st c) c
+  exact ⟨(frame_adv st c).trans a, by rw [advNL, b]; simp [Lex.adv]⟩
+
+theorem advAllNL_idx (st : St) (cs : List Rn) : (advAllNL st cs).idx = st.idx + cs.length := by
+  induction cs generalizing st with
+  | nil => simp [advAllNL]
+  | cons c cs ih =>
+    simp only [advAllNL, List.foldl_cons] at ih ⊢
+    rw [ih, (frame_advNL st c).2]; simp; omega
+
+theorem frame_advAllNL (st : St) (cs : List Rn) : Frame st (advAllNL st cs) := by
+  induction cs generalizing st with
+  | nil => exact Frame.refl st
+  | cons c cs ih =>
+    simp only [advAllNL, List.foldl_cons] at ih ⊢
+    exact (frame_advNL st c).1.trans (ih _)
+
+/-- consuming runes inside a string literal: every newline among them reaches the line table -/
+theorem Core.advAllNL {data st cs rs} (h : Core data st (cs ++ rs)) : Core data (advAllNL st cs) rs := by
+  induction cs generalizing st with
+  | nil => simpa [Lex.advAllNL] using h
+  | cons c cs ih =>
+    simp only [Lex.advAllNL, List.foldl_cons] at ih ⊢
+    exact ih h.maybeNewLine
+
+/-- what is known about the pending escape error of `readStringLiteral` -/
+structure SSOk (data : List UInt8) (st : St) (ss : SS) : Prop where
+  esc_ok : ∀ e, ss.escErr = some e → ErrAt data st.pos e
+  nomore : ss.noMore = true → ss.escErr ≠ none
+
+theorem SSOk.mono {data : List UInt8} {st st' : St} {ss : SS} (h : SSOk data st ss) (hp : st.pos ≤ st'.pos) :
+    SSOk data st' ss :=
+  ⟨fun e he => (h.esc_ok e he).mono hp, h.nomore⟩
+
+theorem frame_handleError (st : St) (e : Err) :
+    Frame st (Lex.handleError st e).1 ∧ (Lex.handleError st e).1.idx = st.idx := by
+  unfold Lex.handleError
+  split
+  · exact ⟨Frame.refl st, rfl⟩
+  · split <;> exact ⟨⟨rfl, rfl, rfl, rfl, rfl, rfl, rfl, rfl, Nat.le_refl _⟩, rfl⟩
+
+
+/-- recording a new pending escape error at `escStart ≤ pos` never panics -/
+theorem newEscErr_spec {data st rs} (ss : SS) (cls : EC) (escStart : Nat) (h : Core data st rs)
+    (hes : escStart ≤ st.pos) :
+    ∃ ss', Lex.newEscErr st ss cls escStart = .cont st ss' ∧ SSOk data st ss' ∧ ss'.escErr ≠ none := by
+  obtain ⟨t, ht⟩ := h.lines_hd
+  have hle : escStart ≤ st.fi.data.length := by
+    have := h.pos_le; rw [h.hdata]; omega
+  obtain ⟨l, c, hsp, _⟩ := sourcePos_some st.fi escStart t ht hle
+  simp only [Lex.newEscErr, hsp]
+  refine ⟨_, rfl, ⟨?_, ?_⟩, by simp⟩
+  · intro e he
+    simp only [Option.some.injEq] at he
+    subst he
+    exact h.errAt cls escStart l c hes hsp
+  · intro _; simp
+
+/-- `reportErr` never panics: it records a pending escape error whose offset lies in the file -/
+theorem reportErr_spec {data st rs} (ss : SS) (cls : EC) (escStart : Nat)
+    (h : Core data st rs) (hs : SSOk data st ss) (hes : escStart ≤ st.pos) :
+    ∃ st' ss', Lex.reportErr st ss cls escStart = .cont st' ss' ∧ Core data st' rs ∧ SSOk data st' ss' ∧
+      Frame st st' ∧ st'.idx = st.idx ∧ ss'.escErr ≠ none := by
+  unfold Lex.reportErr
+  by_cases hnm : ss.noMore = true
+  · simp only [hnm, if_true]
+    exact ⟨st, ss, rfl, h, hs, Frame.refl st, rfl, hs.nomore hnm⟩
+  · simp only [hnm, Bool.false_eq_true, if_false]
+    cases he : ss.escErr with
+    | none =>
+      simp only
+      obtain ⟨ss', h1, h2, h3⟩ := newEscErr_spec (data := data) (rs := rs) ss cls escStart h hes
+      exact ⟨st, ss', h1, h, h2, Frame.refl st, rfl, h3⟩
+    | some e =>
+      simp only
+      obtain ⟨hc, _, hp, hf⟩ := h.handleError e (hs.esc_ok e he)
+      obtain ⟨hfr, hidx⟩ := frame_handleError st e
+      obtain ⟨ss', h1, h2, h3⟩ := newEscErr_spec (data := data) (rs := rs)
+        { buf := ss.buf, escErr := some e, noMore := !(Lex.handleError st e).2 } cls escStart hc (by rw [hp]; exact hes)
+      exact ⟨_, ss', h1, hc, h2, hfr, hidx, h3⟩
+
+/-- how a finished `readStringLiteral` leaves the lexer, `k` runes after `rs0` began -/
+def StrPost (data : List UInt8) (st0 : St) (k : Nat) (rs0 : List Rn) (st' : St) (res : StrRes) : Prop :=
+  st'.idx = st0.idx + k ∧ Frame st0 st' ∧ Core data st' (rs0.drop k) ∧
+  match res with
+  | .panic => False
+  | .pos e => ErrAt data st'.pos e
+  | _ => True
+
+theorem strIter_spec {data : List UInt8} (q : Nat) (c : Rn) (rs : List Rn) (st : St) (ss : SS)
+    (h : Core data st (c :: rs)) (hs : SSOk data st ss) :
+    1 ≤ (strPlan q c rs).1 ∧ (strPlan q c rs).1 ≤ (c :: rs).length ∧
+    match strIter q st ss c rs with
+    | .cont st' ss' => Core data st' ((c :: rs).drop (strPlan q c rs).1) ∧
+        SSOk data st' ss' ∧ Frame st st' ∧ st'.idx = st.idx + (strPlan q c rs).1
+    | .done st' res => StrPost data st (strPlan q c rs).1 (c :: rs) st' res := by
+  obtain ⟨hk1, hk2⟩ := strPlan_ok q c rs
+  refine ⟨hk1, hk2, ?_⟩
+  generalize hp : strPlan q c rs = p at hk1 hk2
+  obtain ⟨k, act⟩ := p
+  simp only at hk1 hk2
+  have hsplit : c :: rs = (c :: rs).take k ++ (c :: rs).drop k := (List.take_append_drop k _).symm
+  have hlen : ((c :: rs).take k).length = k := by
+    simp only [List.length_cons] at hk2; simp only [List.length_take, List.length_cons]; omega
+  have hidx : (advAllNL st ((c :: rs).take k)).idx = st.idx + k := by rw [advAllNL_idx, hlen]
+  have hfr := frame_advAllNL st ((c :: rs).take k)
+  have hcore : Core data (advAllNL st ((c :: rs).take k)) ((c :: rs).drop k) := by
+    have h' := h; rw [hsplit] at h'; exact h'.advAllNL
+  have hss : SSOk data (advAllNL st ((c :: rs).take k)) ss := hs.mono hfr.pos_le
+  simp only [strIter, hp]
+  cases act with
+  | eol => exact ⟨hidx, hfr, hcore, trivial⟩
+  | eof => exact ⟨hidx, hfr, hcore, trivial⟩
+  | close =>
+    cases he : ss.escErr with
+    | some e =>
+      exact ⟨hidx, hfr, hcore, (hs.esc_ok e he).mono hfr.pos_le⟩
+    | none => exact ⟨hidx, hfr, hcore, trivial⟩
+  | push bs =>
+    simp only [Lex.push]
+    exact ⟨hcore, ⟨hss.esc_ok, hss.nomore⟩, hfr, hidx⟩
+  | report cls =>
+    obtain ⟨st', ss', heq, a, b, c1, d, _⟩ := reportErr_spec (data := data) ss cls st.pos hcore hss hfr.pos_le
+    dsimp only
+    rw [heq]
+    exact ⟨a, b, hfr.trans c1, by rw [d, hidx]⟩
+
+/-- outcome of `strGo q s st ss rs` (the first `s` cells of `rs` are already consumed) -/
+def GoPost (data : List UInt8) (st : St) (s : Nat) (rs : List Rn) (st' : St) (res : StrRes) : Prop :=
+  ∃ k, s ≤ k ∧ k ≤ rs.length ∧ st'.idx = st.idx + (k - s) ∧ Frame st st' ∧ Core data st' (rs.drop k) ∧
+  match res with
+  | .panic => False
+  | .pos e => ErrAt data st'.pos e
+  | _ => True
+
+theorem strGo_spec {data : List UInt8} (q : Nat) (rs : List Rn) :
+    ∀ (s : Nat) (st : St) (ss : SS), s ≤ rs.length →
+    Core data st (rs.drop s) → SSOk data st ss →
+    GoPost data st s rs (strGo q s st ss rs).1 (strGo q s st ss rs).2 := by
+  induction rs with
+  | nil =>
+    intro s st ss hs h _
+    have hs0 : s = 0 := by simpa using hs
+    subst hs0
+    simp only [strGo]
+    exact ⟨0, Nat.le_refl _, Nat.le_refl _, rfl, Frame.refl st, by simpa using h, trivial⟩
+  | cons c rs ih =>
+    intro s st ss hs h hss
+    cases s with
+    | succ s =>
+      simp only [strGo]
+      have hs' : s ≤ rs.length := by simpa using hs
+      obtain ⟨k, h1, h2, h3, h4, h5, h6⟩ := ih s st ss hs' (by simpa using h) hss
+      exact ⟨k + 1, by omega, by simp; omega, by rw [h3]; omega, h4, by simpa using h5, h6⟩
+    | zero =>
+      simp only [List.drop_zero] at h
+      obtain ⟨hk1, hk2, hit⟩ := strIter_spec q c rs st ss h hss
+      simp only [strGo]
+      generalize hkk : (strPlan q c rs).1 = kk at hk1 hk2 hit
+      cases hstep : strIter q st ss c rs with
+      | done st' res =>
+        rw [hstep] at hit
+        simp only
+        obtain ⟨a, b, cc, d⟩ := hit
+        exact ⟨kk, Nat.zero_le _, hk2, by simpa using a, b, cc, d⟩
+      | cont st' ss' =>
+        rw [hstep] at hit
+        simp only
+        obtain ⟨hc', hss', hfr, hidx⟩ := hit
+        have hskip : st'.idx - st.idx - 1 = kk - 1 := by omega
+        rw [hskip]
+        have hlen : kk - 1 ≤ rs.length := by simp at hk2; omega
+        have hdrop : (c :: rs).drop kk = rs.drop (kk - 1) := by
+          obtain ⟨j, hj⟩ : ∃ j, kk = j + 1 := ⟨kk - 1, by omega⟩
+          subst hj; simp
+        rw [hdrop] at hc'
+        obtain ⟨k, h1, h2, h3, h4, h5, h6⟩ := ih (kk - 1) st' ss' hlen hc' hss'
+        exact ⟨k + 1, Nat.zero_le _, by simp; omega, by rw [h3, hidx]; omega, hfr.trans h4, by simpa using h5, h6⟩
+
+/-! ### errors with the position of the current token, comments -/
+
+theorem frame_errs (st : St) (errs : List Err) (herr : Bool) (toks : List Tok) (fresh : Bool) :
+    Frame st { st with errs := errs, herr := herr, toks := toks, fresh := fresh } :=
+  ⟨rfl, rfl, rfl, rfl, rfl, rfl, rfl, rfl, Nat.le_refl _⟩
+
+theorem setErrorPlain_spec {data st rs} (cls : EC) (h : Core data st rs) :
+    Core data (Lex.setErrorPlain st cls) rs ∧ Frame st (Lex.setErrorPlain st cls) ∧
+    (Lex.setErrorPlain st cls).idx = st.idx ∧ (Lex.setErrorPlain st cls).errs ≠ [] := by
+  obtain ⟨t, ht⟩ := h.lines_hd
+  have hle : st.prevOffset ≤ st.fi.data.length := by
+    have := h.pos_le; have := h.prev_le; rw [h.hdata]; omega
+  obtain ⟨l, c, hsp, _⟩ := sourcePos_some st.fi st.prevOffset t ht hle
+  simp only [Lex.setErrorPlain, hsp]
+  have hp := h.prev_le
+  obtain ⟨hc, hne, hpos, hfi⟩ := h.handleError ⟨cls, st.prevOffset, l, c⟩ (h.errAt cls st.prevOffset l c hp hsp)
+  obtain ⟨hfr, hidx⟩ := frame_handleError st ⟨cls, st.prevOffset, l, c⟩
+  refine ⟨?_, ?_, hidx, hne⟩
+  · exact { hdata := hc.hdata, pos_eq := hc.pos_eq, data_eq := hc.data_eq, rok := hc.rok, prev_le := hc.prev_le,
+            lines_hd := hc.lines_hd, lines_le := hc.lines_le,
+            lines_eq := hc.lines_eq, errs_ok := hc.errs_ok,
+            herr_errs := hc.herr_errs, nopanic := hc.nopanic }
+  · exact hfr.trans ⟨rfl, rfl, rfl, rfl, rfl, rfl, rfl, rfl, Nat.le_refl _⟩
+
+theorem setErrorPos_spec {data st rs} (e : Err) (h : Core data st rs)
+    (he : ErrAt data st.pos e) :
+    Core data (Lex.setErrorPos st e) rs ∧ Frame st (Lex.setErrorPos st e) ∧
+    (Lex.setErrorPos st e).idx = st.idx ∧ (Lex.setErrorPos st e).errs ≠ [] := by
+  simp only [Lex.setErrorPos]
+  obtain ⟨hc, hne, hpos, hfi⟩ := h.handleError e he
+  obtain ⟨hfr, hidx⟩ := frame_handleError st e
+  refine ⟨?_, ?_, hidx, hne⟩
+  · exact { hdata := hc.hdata, pos_eq := hc.pos_eq, data_eq := hc.data_eq, rok := hc.rok, prev_le := hc.prev_le,
+            lines_hd := hc.lines_hd, lines_le := hc.lines_le,
+            lines_eq := hc.lines_eq, errs_ok := hc.errs_ok,
+            herr_errs := hc.herr_errs, nopanic := hc.nopanic }
+  · exact hfr.trans ⟨rfl, rfl, rfl, rfl, rfl, rfl, rfl, rfl, Nat.le_refl _⟩
+
+/-- outcome of a scanner that started at `st` with `rs` to read -/
+def ScanPost (data : List UInt8) (st : St) (rs : List Rn) (st' : St) : Prop :=
+  ∃ k, k ≤ rs.length ∧ st'.idx = st.idx + k ∧ Frame st st' ∧ Core data st' (rs.drop k)
+
+theorem lineCommentGo_spec {data} (rs : List Rn) : ∀ (st : St), Core data st rs →
+    ScanPost data st rs (lineCommentGo st rs).1 ∧
+    ((lineCommentGo st rs).2 = true → (lineCommentGo st rs).1.errs ≠ []) := by
+  induction rs with
+  | nil =>
+    intro st h
+    simp only [lineCommentGo]
+    exact ⟨⟨0, Nat.le_refl _, rfl, Frame.refl st, by simpa using h⟩, by simp⟩
+  | cons c rs ih =>
+    intro st h
+    simp only [lineCommentGo]
+    by_cases h10 : c.r = 10
+    · simp only [h10, if_true]
+      exact ⟨⟨0, Nat.zero_le _, rfl, Frame.refl st, by simpa using h⟩, by simp⟩
+    · simp only [h10, if_false]
+      by_cases h0 : c.r = 0
+      · simp only [h0, if_true]
+        have ha := h.adv h10
+        obtain ⟨a, b, cc, d⟩ := setErrorPlain_spec .controlChar ha
+        refine ⟨⟨1, by simp, by rw [cc]; simp [Lex.adv], (frame_adv st c).trans b, ?_⟩, fun _ => d⟩
+        simpa using a
+      · simp only [h0, if_false]
+        obtain ⟨⟨k, h1, h2, h3, h4⟩, h5⟩ := ih (Lex.adv st c) (h.adv h10)
+        refine ⟨⟨k + 1, by simp; omega, by rw [h2]; simp [Lex.adv]; omega, (frame_adv st c).trans h3, ?_⟩, h5⟩
+        simpa using h4
+
+
+theorem blockCommentGo_spec {data} (rs : List Rn) : ∀ (st : St), Core data st rs →
+    ScanPost data st rs (blockCommentGo st rs).1 ∧
     ((blockCommentGo st rs).2 = .err → (blockCommentGo st rs).1.errs ≠ []) := by
   induction rs with
   | nil =>
@@ -1006,9 +812,9 @@ theorem blockCommentGo_spec {data X} (rs : List Rn) : ∀ (st : St), Core data X
     by_cases h0 : c.r = 0
     · simp only [h0, if_true]
       have ha := h.adv (by omega)
-      obtain ⟨a, b, cc, d⟩ := setErrorPlain_spec (X := X) .controlChar ha
+      obtain ⟨a, b, cc, d⟩ := setErrorPlain_spec .controlChar ha
       refine ⟨⟨1, by simp, by rw [cc]; simp [Lex.adv], (frame_adv st c).trans b, ?_⟩, fun _ => d⟩
-      simpa using a.weaken (fun _ => trivial)
+      simpa using a
     · simp only [h0, if_false]
       have hm := h.maybeNewLine
       obtain ⟨hfm, him⟩ := frame_maybeNewLine (Lex.adv st c) c
@@ -1016,7 +822,7 @@ theorem blockCommentGo_spec {data X} (rs : List Rn) : ∀ (st : St), Core data X
       simp only [hnp, Bool.false_eq_true, if_false]
       have hidx1 : (Lex.maybeNewLine (Lex.adv st c) c).idx = st.idx + 1 := by rw [him]; simp [Lex.adv]
       have hfr1 : Frame st (Lex.maybeNewLine (Lex.adv st c) c) := (frame_adv st c).trans hfm
-      have hrec : ScanPost data X st (c :: rs) (blockCommentGo (Lex.maybeNewLine (Lex.adv st c) c) rs).1 ∧
+      have hrec : ScanPost data st (c :: rs) (blockCommentGo (Lex.maybeNewLine (Lex.adv st c) c) rs).1 ∧
           ((blockCommentGo (Lex.maybeNewLine (Lex.adv st c) c) rs).2 = .err →
             (blockCommentGo (Lex.maybeNewLine (Lex.adv st c) c) rs).1.errs ≠ []) := by
         obtain ⟨⟨k, h1, h2, h3, h4⟩, h5⟩ := ih _ hm
@@ -1126,18 +932,18 @@ theorem Tab.transfer {m : Nat} {st st' : St} (h : Tab m st) (hi : st'.fi.items =
   · rw [hs, hi]; exact h.prev_lt
 
 /-- moving the core invariant across a change of the item / comment tables -/
-theorem Core.transfer {data X st st' rs} (h : Core data X st rs)
+theorem Core.transfer {data st st' rs} (h : Core data st rs)
     (hd : st'.fi.data = st.fi.data) (hl : st'.fi.lines = st.fi.lines) (hp : st'.pos = st.pos)
     (hpo : st'.prevOffset ≤ st'.pos) (he : st'.errs = st.errs) (hh : st'.herr = st.herr)
-    (hpn : st'.panicked = st.panicked) : Core data X st' rs := by
+    (hpn : st'.panicked = st.panicked) : Core data st' rs := by
   refine { hdata := ?_, pos_eq := ?_, data_eq := ?_, rok := h.rok, prev_le := hpo, lines_hd := ?_,
-           lines_le := ?_, lines_clean := ?_, errs_ok := ?_, herr_errs := ?_, nopanic := ?_ }
+           lines_le := ?_, lines_eq := ?_, errs_ok := ?_, herr_errs := ?_, nopanic := ?_ }
   · rw [hd]; exact h.hdata
   · rw [hp]; exact h.pos_eq
   · rw [hp]; exact h.data_eq
   · rw [hl]; exact h.lines_hd
   · rw [hl, hp]; exact h.lines_le
-  · rw [he, hl, hp]; exact h.lines_clean
+  · rw [hl, hp]; exact h.lines_eq
   · rw [he, hp]; exact h.errs_ok
   · rw [he, hh]; exact h.herr_errs
   · rw [hpn]; exact h.nopanic
@@ -1210,10 +1016,10 @@ theorem pairwise_append_left {α} {R : α → α → Prop} {a b : List α} (h : 
 
 
 /-- the state after a token was added and the pending comments attributed -/
-theorem tokenStep_spec {data X st rs} (isEOF : Bool)
-    (h : Core data X st rs) (ht : Tab st.mark st) (hm : st.mark ≤ st.pos) :
+theorem tokenStep_spec {data st rs} (isEOF : Bool)
+    (h : Core data st rs) (ht : Tab st.mark st) (hm : st.mark ≤ st.pos) :
     ∃ st', Lex.tokenStep st isEOF = some (st', st.fi.items.length) ∧
-    Core data X st' rs ∧ Tab st'.pos st' ∧ st'.idx = st.idx ∧ st'.pos = st.pos ∧ st'.eof = st.eof ∧
+    Core data st' rs ∧ Tab st'.pos st' ∧ st'.idx = st.idx ∧ st'.pos = st.pos ∧ st'.eof = st.eof ∧
     st'.toks = st.toks ∧ st'.done = st.done ∧
     st'.fi.items = st.fi.items ++ [⟨st.mark, st.pos - st.mark⟩] := by
   have hlen : st.mark + (st.pos - st.mark) ≤ st.fi.data.length := by
@@ -1305,9 +1111,9 @@ theorem tokenStep_spec {data X st rs} (isEOF : Bool)
       subst hp
       simp
 
-theorem emit_spec {data X st rs} (kind : Kind) (val : Val) (isEOF : Bool)
-    (h : Core data X st rs) (ht : Tab st.mark st) (hm : st.mark ≤ st.pos) :
-    Core data X (Lex.emit st kind val isEOF) rs ∧ Tab (Lex.emit st kind val isEOF).pos (Lex.emit st kind val isEOF) ∧
+theorem emit_spec {data st rs} (kind : Kind) (val : Val) (isEOF : Bool)
+    (h : Core data st rs) (ht : Tab st.mark st) (hm : st.mark ≤ st.pos) :
+    Core data (Lex.emit st kind val isEOF) rs ∧ Tab (Lex.emit st kind val isEOF).pos (Lex.emit st kind val isEOF) ∧
     (Lex.emit st kind val isEOF).idx = st.idx ∧ (Lex.emit st kind val isEOF).pos = st.pos ∧
     (Lex.emit st kind val isEOF).eof = st.eof ∧
     (Lex.emit st kind val isEOF).fi.items = st.fi.items ++ [⟨st.mark, st.pos - st.mark⟩] := by
@@ -1317,9 +1123,9 @@ theorem emit_spec {data X st rs} (kind : Kind) (val : Val) (isEOF : Bool)
   · exact hc.transfer rfl rfl rfl hc.prev_le rfl rfl rfl
   · exact htab.frame ⟨rfl, rfl, rfl, rfl, rfl, rfl, rfl, rfl, Nat.le_refl _⟩
 
-theorem addCommentTok_spec {data X st rs} (isBlock : Bool) (startLine : Nat)
-    (h : Core data X st rs) (ht : Tab st.mark st) (hm : st.mark ≤ st.pos) :
-    Core data X (Lex.addCommentTok st isBlock startLine) rs ∧
+theorem addCommentTok_spec {data st rs} (isBlock : Bool) (startLine : Nat)
+    (h : Core data st rs) (ht : Tab st.mark st) (hm : st.mark ≤ st.pos) :
+    Core data (Lex.addCommentTok st isBlock startLine) rs ∧
     Tab (Lex.addCommentTok st isBlock startLine).pos (Lex.addCommentTok st isBlock startLine) ∧
     (Lex.addCommentTok st isBlock startLine).idx = st.idx ∧
     (Lex.addCommentTok st isBlock startLine).pos = st.pos ∧
@@ -1413,12 +1219,12 @@ theorem numberLen_le (rs : List Rn) : ∀ a, numberLen a rs ≤ rs.length := by
 
 /-- the invariant at the boundaries of the iterations of `Lex` -/
 structure Inv (data : List UInt8) (st : St) (rs : List Rn) : Prop where
-  core : Core data True st rs
+  core : Core data st rs
   tab : Tab st.pos st
   eofnone : st.eof = none
 
 theorem fin_emit {data : List UInt8} {st0 stx : St} {rsx : List Rn} (kind : Kind) (val : Val)
-    (hc : Core data True stx rsx) (hf : Frame st0 stx) (ht : Tab st0.mark st0) (hm : st0.mark ≤ st0.pos)
+    (hc : Core data stx rsx) (hf : Frame st0 stx) (ht : Tab st0.mark st0) (hm : st0.mark ≤ st0.pos)
     (he : st0.eof = none) :
     Inv data (Lex.emit stx kind val) rsx ∧ (Lex.emit stx kind val).idx = stx.idx := by
   have ht' : Tab stx.mark stx := by rw [hf.mark]; exact ht.frame hf
@@ -1426,8 +1232,8 @@ theorem fin_emit {data : List UInt8} {st0 stx : St} {rsx : List Rn} (kind : Kind
   obtain ⟨a, b, c, _, e, _⟩ := emit_spec kind val false hc ht' hm'
   exact ⟨⟨a, b, by rw [e, hf.eof, he]⟩, c⟩
 
-theorem fin_err {data : List UInt8} {X : Prop} {st0 stx : St} {rsx : List Rn} (cls : EC)
-    (hc : Core data X stx rsx) (hf : Frame st0 stx) (ht : Tab st0.mark st0) (hm : st0.mark ≤ st0.pos)
+theorem fin_err {data : List UInt8} {st0 stx : St} {rsx : List Rn} (cls : EC)
+    (hc : Core data stx rsx) (hf : Frame st0 stx) (ht : Tab st0.mark st0) (hm : st0.mark ≤ st0.pos)
     (he : st0.eof = none) :
     Inv data (Lex.setErrorPlain stx cls) rsx ∧ (Lex.setErrorPlain stx cls).idx = stx.idx := by
   obtain ⟨a, b, c, _⟩ := setErrorPlain_spec cls hc
@@ -1435,9 +1241,9 @@ theorem fin_err {data : List UInt8} {X : Prop} {st0 stx : St} {rsx : List Rn} (c
   refine ⟨⟨a, ?_, by rw [hfr.eof, he]⟩, c⟩
   exact (ht.frame hfr).mono (Nat.le_trans hm hfr.pos_le)
 
-theorem fin_errpos {data : List UInt8} {X : Prop} {st0 stx : St} {rsx : List Rn} (e : Err)
-    (hc : Core data X stx rsx) (hf : Frame st0 stx) (ht : Tab st0.mark st0) (hm : st0.mark ≤ st0.pos)
-    (he : st0.eof = none) (hoff : 0 ≤ e.off ∧ e.off ≤ (stx.pos : Int)) :
+theorem fin_errpos {data : List UInt8} {st0 stx : St} {rsx : List Rn} (e : Err)
+    (hc : Core data stx rsx) (hf : Frame st0 stx) (ht : Tab st0.mark st0) (hm : st0.mark ≤ st0.pos)
+    (he : st0.eof = none) (hoff : ErrAt data stx.pos e) :
     Inv data (Lex.setErrorPos stx e) rsx ∧ (Lex.setErrorPos stx e).idx = stx.idx := by
   obtain ⟨a, b, c, _⟩ := setErrorPos_spec e hc hoff
   have hfr := hf.trans b
@@ -1445,7 +1251,7 @@ theorem fin_errpos {data : List UInt8} {X : Prop} {st0 stx : St} {rsx : List Rn}
   exact (ht.frame hfr).mono (Nat.le_trans hm hfr.pos_le)
 
 theorem fin_comment {data : List UInt8} {st0 stx : St} {rsx : List Rn} (isBlock : Bool) (startLine : Nat)
-    (hc : Core data True stx rsx) (hf : Frame st0 stx) (ht : Tab st0.mark st0) (hm : st0.mark ≤ st0.pos)
+    (hc : Core data stx rsx) (hf : Frame st0 stx) (ht : Tab st0.mark st0) (hm : st0.mark ≤ st0.pos)
     (he : st0.eof = none) :
     Inv data (Lex.addCommentTok stx isBlock startLine) rsx ∧ (Lex.addCommentTok stx isBlock startLine).idx = stx.idx := by
   have ht' : Tab stx.mark stx := by rw [hf.mark]; exact ht.frame hf
@@ -1454,17 +1260,16 @@ theorem fin_comment {data : List UInt8} {st0 stx : St} {rsx : List Rn} (isBlock 
   exact ⟨⟨a, b, by rw [e, hf.eof, he]⟩, c⟩
 
 theorem fin_keep {data : List UInt8} {st0 stx : St} {rsx : List Rn}
-    (hc : Core data True stx rsx) (hf : Frame st0 stx) (ht : Tab st0.mark st0) (hm : st0.mark ≤ st0.pos)
+    (hc : Core data stx rsx) (hf : Frame st0 stx) (ht : Tab st0.mark st0) (hm : st0.mark ≤ st0.pos)
     (he : st0.eof = none) : Inv data stx rsx :=
   ⟨hc, (ht.frame hf).mono (Nat.le_trans hm hf.pos_le), by rw [hf.eof, he]⟩
 
 /-- outcome of one iteration that started at `st0` with `l` to read -/
 def BodyPost (data : List UInt8) (st0 : St) (l : List Rn) (st' : St) : Prop :=
-  (Panicked st' ∧ ¬ Valid l) ∨
   ∃ k, 1 ≤ k ∧ k ≤ l.length ∧ st'.idx = st0.idx + k ∧ Inv data st' (l.drop k)
 
 theorem lexNumber_spec {data : List UInt8} {st0 stx : St} {rsx : List Rn} (token : List UInt8)
-    (hc : Core data True stx rsx) (hf : Frame st0 stx) (ht : Tab st0.mark st0) (hm : st0.mark ≤ st0.pos)
+    (hc : Core data stx rsx) (hf : Frame st0 stx) (ht : Tab st0.mark st0) (hm : st0.mark ≤ st0.pos)
     (he : st0.eof = none) :
     Inv data (lexNumber stx token) rsx ∧ (lexNumber stx token).idx = stx.idx := by
   simp only [lexNumber]
@@ -1473,12 +1278,6 @@ theorem lexNumber_spec {data : List UInt8} {st0 stx : St} {rsx : List Rn} (token
     | exact fin_emit _ _ hc hf ht hm he
     | exact fin_err _ hc hf ht hm he
 
-
-theorem not_valid_cons {c : Rn} {rs : List Rn} {k : Nat} (h : ¬ Valid (rs.take k)) : ¬ Valid (c :: rs) := by
-  intro hv
-  apply h
-  intro x hx
-  exact hv x (by simp [List.mem_of_mem_take hx])
 
 theorem isWS_false_ne_nl (r : Nat) (h : ¬ isWS r = true) : r ≠ 10 := by
   intro h10; subst h10; simp [isWS] at h
@@ -1492,7 +1291,7 @@ theorem nextIs_cons (rs : List Rn) (r : Nat) (h : nextIs rs r = true) : ∃ cn r
   | cons cn rs1 => exact ⟨cn, rs1, rfl, by simpa [nextIs] using h⟩
 
 theorem lexBody_spec {data : List UInt8} (st0 : St) (c : Rn) (rs : List Rn)
-    (hc : Core data True st0 (c :: rs)) (ht : Tab st0.mark st0) (hm : st0.mark ≤ st0.pos)
+    (hc : Core data st0 (c :: rs)) (ht : Tab st0.mark st0) (hm : st0.mark ≤ st0.pos)
     (he : st0.eof = none) :
     BodyPost data st0 (c :: rs) (lexBody (Lex.adv st0 c) c rs) := by
   have f1 : Frame st0 (Lex.adv st0 c) := frame_adv st0 c
@@ -1501,20 +1300,20 @@ theorem lexBody_spec {data : List UInt8} (st0 : St) (c : Rn) (rs : List Rn)
   by_cases hws : isWS c.r = true
   · rw [if_pos hws]
     obtain ⟨hfm, him⟩ := frame_maybeNewLine (Lex.adv st0 c) c
-    exact Or.inr ⟨1, Nat.le_refl _, by simp, by rw [him, i1],
+    exact ⟨1, Nat.le_refl _, by simp, by rw [him, i1],
       fin_keep (by simpa using hc.maybeNewLine) (f1.trans hfm) ht hm he⟩
   rw [if_neg hws]
   have hcnl : c.r ≠ 10 := isWS_false_ne_nl _ hws
-  have hc1 : Core data True (Lex.adv st0 c) rs := hc.adv hcnl
+  have hc1 : Core data (Lex.adv st0 c) rs := hc.adv hcnl
   -- a token that ends right after `c`
   have one_emit : ∀ kind val, BodyPost data st0 (c :: rs) (Lex.emit (Lex.adv st0 c) kind val) := by
     intro kind val
     obtain ⟨a, b⟩ := fin_emit kind val hc1 f1 ht hm he
-    exact Or.inr ⟨1, Nat.le_refl _, by simp, by rw [b, i1], by simpa using a⟩
+    exact ⟨1, Nat.le_refl _, by simp, by rw [b, i1], by simpa using a⟩
   have one_err : ∀ cls, BodyPost data st0 (c :: rs) (Lex.setErrorPlain (Lex.adv st0 c) cls) := by
     intro cls
     obtain ⟨a, b⟩ := fin_err cls hc1 f1 ht hm he
-    exact Or.inr ⟨1, Nat.le_refl _, by simp, by rw [b, i1], by simpa using a⟩
+    exact ⟨1, Nat.le_refl _, by simp, by rw [b, i1], by simpa using a⟩
   by_cases h46 : c.r = 46
   · rw [if_pos h46]
     cases rs with
@@ -1527,8 +1326,8 @@ theorem lexBody_spec {data : List UInt8} (st0 : St) (c : Rn) (rs : List Rn)
         have hk := numberLen_le rs1 false
         have hsplit : rs1 = rs1.take (numberLen false rs1) ++ rs1.drop (numberLen false rs1) :=
           (List.take_append_drop _ _).symm
-        have hc2 : Core data True (Lex.adv (Lex.adv st0 c) cn) rs1 := hc1.adv (isDigitR_ne_nl _ hd)
-        have hc3 : Core data True (advAll (Lex.adv (Lex.adv st0 c) cn) (rs1.take (numberLen false rs1)))
+        have hc2 : Core data (Lex.adv (Lex.adv st0 c) cn) rs1 := hc1.adv (isDigitR_ne_nl _ hd)
+        have hc3 : Core data (advAll (Lex.adv (Lex.adv st0 c) cn) (rs1.take (numberLen false rs1)))
             (rs1.drop (numberLen false rs1)) := by
           have h' := hc2; rw [hsplit] at h'
           exact h'.advAll_clean (numberLen_no_nl rs1 false)
@@ -1541,9 +1340,9 @@ theorem lexBody_spec {data : List UInt8} (st0 : St) (c : Rn) (rs : List Rn)
           rw [Nat.add_comm]; rfl
         split
         · obtain ⟨a, b⟩ := fin_emit .floatLit (.float _) hc3 f3 ht hm he
-          exact Or.inr ⟨2 + numberLen false rs1, by omega, by simp; omega, by rw [b, i3], by rw [hdrop]; exact a⟩
+          exact ⟨2 + numberLen false rs1, by omega, by simp; omega, by rw [b, i3], by rw [hdrop]; exact a⟩
         · obtain ⟨a, b⟩ := fin_err (.numSyntax .float) hc3 f3 ht hm he
-          exact Or.inr ⟨2 + numberLen false rs1, by omega, by simp; omega, by rw [b, i3], by rw [hdrop]; exact a⟩
+          exact ⟨2 + numberLen false rs1, by omega, by simp; omega, by rw [b, i3], by rw [hdrop]; exact a⟩
       · rw [if_neg hd]; exact one_emit _ _
   rw [if_neg h46]
   by_cases hid : isIdentStartR c.r = true
@@ -1551,7 +1350,7 @@ theorem lexBody_spec {data : List UInt8} (st0 : St) (c : Rn) (rs : List Rn)
     simp only
     have hk := identLen_le rs
     have hsplit : rs = rs.take (identLen rs) ++ rs.drop (identLen rs) := (List.take_append_drop _ _).symm
-    have hc3 : Core data True (advAll (Lex.adv st0 c) (rs.take (identLen rs))) (rs.drop (identLen rs)) := by
+    have hc3 : Core data (advAll (Lex.adv st0 c) (rs.take (identLen rs))) (rs.drop (identLen rs)) := by
       have h' := hc1; rw [hsplit] at h'
       exact h'.advAll_clean (identLen_no_nl rs)
     have f3 : Frame st0 (advAll (Lex.adv st0 c) (rs.take (identLen rs))) := f1.trans (frame_advAll _ _)
@@ -1560,14 +1359,14 @@ theorem lexBody_spec {data : List UInt8} (st0 : St) (c : Rn) (rs : List Rn)
     have hdrop : (c :: rs).drop (1 + identLen rs) = rs.drop (identLen rs) := by rw [Nat.add_comm]; rfl
     obtain ⟨a, b⟩ := fin_emit (if keywordBytes.contains (asBytes (c :: rs.take (identLen rs))) then Kind.kw else Kind.name)
       Val.none hc3 f3 ht hm he
-    exact Or.inr ⟨1 + identLen rs, by omega, by simp; omega, by rw [b, i3], by rw [hdrop]; exact a⟩
+    exact ⟨1 + identLen rs, by omega, by simp; omega, by rw [b, i3], by rw [hdrop]; exact a⟩
   rw [if_neg hid]
   by_cases hdg : isDigitR c.r = true
   · rw [if_pos hdg]
     simp only
     have hk := numberLen_le rs false
     have hsplit : rs = rs.take (numberLen false rs) ++ rs.drop (numberLen false rs) := (List.take_append_drop _ _).symm
-    have hc3 : Core data True (advAll (Lex.adv st0 c) (rs.take (numberLen false rs))) (rs.drop (numberLen false rs)) := by
+    have hc3 : Core data (advAll (Lex.adv st0 c) (rs.take (numberLen false rs))) (rs.drop (numberLen false rs)) := by
       have h' := hc1; rw [hsplit] at h'
       exact h'.advAll_clean (numberLen_no_nl rs false)
     have f3 : Frame st0 (advAll (Lex.adv st0 c) (rs.take (numberLen false rs))) := f1.trans (frame_advAll _ _)
@@ -1575,54 +1374,54 @@ theorem lexBody_spec {data : List UInt8} (st0 : St) (c : Rn) (rs : List Rn)
       rw [advAll_idx, List.length_take, Nat.min_eq_left hk]; simp [Lex.adv]; omega
     have hdrop : (c :: rs).drop (1 + numberLen false rs) = rs.drop (numberLen false rs) := by rw [Nat.add_comm]; rfl
     obtain ⟨a, b⟩ := lexNumber_spec (asBytes (c :: rs.take (numberLen false rs))) hc3 f3 ht hm he
-    exact Or.inr ⟨1 + numberLen false rs, by omega, by simp; omega, by rw [b, i3], by rw [hdrop]; exact a⟩
+    exact ⟨1 + numberLen false rs, by omega, by simp; omega, by rw [b, i3], by rw [hdrop]; exact a⟩
   rw [if_neg hdg]
   by_cases hq : c.r = 39 ∨ c.r = 34
   · rw [if_pos hq]
     have hpost := strGo_spec (data := data) c.r rs 0 (Lex.adv st0 c) {} (Nat.zero_le _)
-      (by simpa using hc1.weaken (fun _ => trivial)) ⟨by intro e he'; simp at he', by intro h'; simp at h'⟩
+      (by simpa using hc1) ⟨by intro e he'; simp at he', by intro h'; simp at h'⟩
     generalize strGo c.r 0 (Lex.adv st0 c) {} rs = r at hpost
     obtain ⟨stx, res⟩ := r
-    obtain ⟨k, _, hk2, hidx, hfr, hres⟩ := hpost
+    obtain ⟨k, _, hk2, hidx, hfr, hcore, hres⟩ := hpost
     simp only [Nat.sub_zero] at hidx
     have hdrop : (c :: rs).drop (1 + k) = rs.drop k := by rw [Nat.add_comm]; rfl
     have f3 : Frame st0 stx := f1.trans hfr
     have i3 : stx.idx = st0.idx + (1 + k) := by rw [hidx, i1]; omega
     cases res with
-    | panic => exact Or.inl ⟨hres.1, not_valid_cons hres.2⟩
+    | panic => exact hres.elim
     | ok bs =>
-      simp only at hres ⊢
-      obtain ⟨a, b⟩ := fin_emit .strLit (.str bs) hres f3 ht hm he
-      exact Or.inr ⟨1 + k, by omega, by simp; omega, by rw [b, i3], by rw [hdrop]; exact a⟩
+      simp only at hcore ⊢
+      obtain ⟨a, b⟩ := fin_emit .strLit (.str bs) hcore f3 ht hm he
+      exact ⟨1 + k, by omega, by simp; omega, by rw [b, i3], by rw [hdrop]; exact a⟩
     | plain cls =>
-      simp only at hres ⊢
-      obtain ⟨a, b⟩ := fin_err cls hres f3 ht hm he
-      exact Or.inr ⟨1 + k, by omega, by simp; omega, by rw [b, i3], by rw [hdrop]; exact a⟩
+      simp only at hcore ⊢
+      obtain ⟨a, b⟩ := fin_err cls hcore f3 ht hm he
+      exact ⟨1 + k, by omega, by simp; omega, by rw [b, i3], by rw [hdrop]; exact a⟩
     | pos e =>
-      simp only at hres ⊢
-      obtain ⟨a, b⟩ := fin_errpos e hres.1 f3 ht hm he hres.2
-      exact Or.inr ⟨1 + k, by omega, by simp; omega, by rw [b, i3], by rw [hdrop]; exact a⟩
+      simp only at hcore hres ⊢
+      obtain ⟨a, b⟩ := fin_errpos e hcore f3 ht hm he hres
+      exact ⟨1 + k, by omega, by simp; omega, by rw [b, i3], by rw [hdrop]; exact a⟩
   rw [if_neg hq]
   by_cases hlc : c.r = 47 ∧ nextIs rs 47 = true
   · rw [if_pos hlc]
     obtain ⟨cn, rs1, rfl, hcn⟩ := nextIs_cons rs 47 hlc.2
     simp only
-    have hc2 : Core data True (Lex.adv (Lex.adv st0 c) cn) rs1 := hc1.adv (by omega)
+    have hc2 : Core data (Lex.adv (Lex.adv st0 c) cn) rs1 := hc1.adv (by omega)
     obtain ⟨⟨k, hk, hidx, hfr, hcore⟩, _⟩ := lineCommentGo_spec rs1 _ hc2
     have f3 : Frame st0 (lineCommentGo (Lex.adv (Lex.adv st0 c) cn) rs1).1 := (f1.trans (frame_adv _ cn)).trans hfr
     have i3 : (lineCommentGo (Lex.adv (Lex.adv st0 c) cn) rs1).1.idx = st0.idx + (2 + k) := by
       rw [hidx]; simp [Lex.adv]; omega
     have hdrop : (c :: cn :: rs1).drop (2 + k) = rs1.drop k := by rw [Nat.add_comm]; rfl
     split
-    · exact Or.inr ⟨2 + k, by omega, by simp; omega, i3, by rw [hdrop]; exact fin_keep hcore f3 ht hm he⟩
+    · exact ⟨2 + k, by omega, by simp; omega, i3, by rw [hdrop]; exact fin_keep hcore f3 ht hm he⟩
     · obtain ⟨a, b⟩ := fin_comment false (Lex.adv st0 c).curLine hcore f3 ht hm he
-      exact Or.inr ⟨2 + k, by omega, by simp; omega, by rw [b, i3], by rw [hdrop]; exact a⟩
+      exact ⟨2 + k, by omega, by simp; omega, by rw [b, i3], by rw [hdrop]; exact a⟩
   rw [if_neg hlc]
   by_cases hbc : c.r = 47 ∧ nextIs rs 42 = true
   · rw [if_pos hbc]
     obtain ⟨cn, rs1, rfl, hcn⟩ := nextIs_cons rs 42 hbc.2
     simp only
-    have hc2 : Core data True (Lex.adv (Lex.adv st0 c) cn) rs1 := hc1.adv (by omega)
+    have hc2 : Core data (Lex.adv (Lex.adv st0 c) cn) rs1 := hc1.adv (by omega)
     obtain ⟨⟨k, hk, hidx, hfr, hcore⟩, _⟩ := blockCommentGo_spec rs1 _ hc2
     generalize blockCommentGo (Lex.adv (Lex.adv st0 c) cn) rs1 = r at hidx hfr hcore
     obtain ⟨stx, res⟩ := r
@@ -1631,13 +1430,13 @@ theorem lexBody_spec {data : List UInt8} (st0 : St) (c : Rn) (rs : List Rn)
     have i3 : stx.idx = st0.idx + (2 + k) := by rw [hidx]; simp [Lex.adv]; omega
     have hdrop : (c :: cn :: rs1).drop (2 + k) = rs1.drop k := by rw [Nat.add_comm]; rfl
     cases res with
-    | err => exact Or.inr ⟨2 + k, by omega, by simp; omega, i3, by rw [hdrop]; exact fin_keep hcore f3 ht hm he⟩
+    | err => exact ⟨2 + k, by omega, by simp; omega, i3, by rw [hdrop]; exact fin_keep hcore f3 ht hm he⟩
     | eof =>
       obtain ⟨a, b⟩ := fin_err .blockCommentEOF hcore f3 ht hm he
-      exact Or.inr ⟨2 + k, by omega, by simp; omega, by rw [b, i3], by rw [hdrop]; exact a⟩
+      exact ⟨2 + k, by omega, by simp; omega, by rw [b, i3], by rw [hdrop]; exact a⟩
     | ok =>
       obtain ⟨a, b⟩ := fin_comment true (Lex.adv st0 c).curLine hcore f3 ht hm he
-      exact Or.inr ⟨2 + k, by omega, by simp; omega, by rw [b, i3], by rw [hdrop]; exact a⟩
+      exact ⟨2 + k, by omega, by simp; omega, by rw [b, i3], by rw [hdrop]; exact a⟩
   rw [if_neg hbc]
   by_cases hctl : c.r < 32 ∨ c.r = 127
   · rw [if_pos hctl]; exact one_err _
@@ -1650,7 +1449,7 @@ theorem lexBody_spec {data : List UInt8} (st0 : St) (c : Rn) (rs : List Rn)
 /-! ### the driver loop -/
 
 theorem beginIter_spec {data : List UInt8} {st : St} {rs : List Rn} (h : Inv data st rs) :
-    Core data True (beginIter st) rs ∧ Tab (beginIter st).mark (beginIter st) ∧
+    Core data (beginIter st) rs ∧ Tab (beginIter st).mark (beginIter st) ∧
     (beginIter st).mark ≤ (beginIter st).pos ∧ (beginIter st).eof = none ∧
     (beginIter st).idx = st.idx ∧ (beginIter st).pos = st.pos ∧ (beginIter st).toks = st.toks ∧
     (beginIter st).done = st.done := by
@@ -1668,20 +1467,18 @@ theorem beginIter_spec {data : List UInt8} {st : St} {rs : List Rn} (h : Inv dat
 
 /-- outcome of one call of `lexIter` -/
 def IterPost (data : List UInt8) (st : St) (l : List Rn) (st' : St) : Prop :=
-  (Panicked st' ∧ ¬ Valid l) ∨
   ∃ k, k ≤ l.length ∧ st'.idx = st.idx + k ∧ Inv data st' (l.drop k) ∧ (k = 0 → st'.done = true)
 
 theorem lexIter_spec {data : List UInt8} (st : St) (c : Rn) (rs : List Rn) (h : Inv data st (c :: rs)) :
     IterPost data st (c :: rs) (lexIter st c rs) := by
   unfold lexIter
   split
-  · refine Or.inr ⟨0, Nat.zero_le _, rfl, ?_, fun _ => rfl⟩
+  · refine ⟨0, Nat.zero_le _, rfl, ?_, fun _ => rfl⟩
     exact ⟨h.core.transfer rfl rfl rfl h.core.prev_le rfl rfl rfl,
       h.tab.frame ⟨rfl, rfl, rfl, rfl, rfl, rfl, rfl, rfl, Nat.le_refl _⟩, h.eofnone⟩
   · obtain ⟨hc, ht, hm, he, hidx, _, _, _⟩ := beginIter_spec h
-    rcases lexBody_spec (beginIter st) c rs hc ht hm he with hp | ⟨k, hk1, hk2, hk3, hk4⟩
-    · exact Or.inl hp
-    · exact Or.inr ⟨k, hk2, by rw [hk3, hidx], hk4, fun h0 => by omega⟩
+    obtain ⟨k, hk1, hk2, hk3, hk4⟩ := lexBody_spec (beginIter st) c rs hc ht hm he
+    exact ⟨k, hk2, by rw [hk3, hidx], hk4, fun h0 => by omega⟩
 
 /-- the lexer reached the end of the input: the EOF item is the last item, empty, at the end -/
 def EofOk (data : List UInt8) (st : St) : Prop :=
@@ -1689,15 +1486,14 @@ def EofOk (data : List UInt8) (st : St) : Prop :=
   st.fi.items.getLast? = some ⟨data.length, 0⟩
 
 /-- what holds of the state in which the driver loop stops -/
-def Final (data : List UInt8) (l : List Rn) (st : St) : Prop :=
-  (Panicked st ∧ ¬ Valid l) ∨
-  ((∃ rs, Core data True st rs) ∧ Tab st.pos st ∧ (st.eof = none ∨ EofOk data st))
+def Final (data : List UInt8) (st : St) : Prop :=
+  (∃ rs, Core data st rs) ∧ Tab st.pos st ∧ (st.eof = none ∨ EofOk data st)
 
-theorem lexEOF_spec {data : List UInt8} (st : St) (l : List Rn) (h : Inv data st []) :
-    Final data l (lexEOF st) := by
+theorem lexEOF_spec {data : List UInt8} (st : St) (h : Inv data st []) :
+    Final data (lexEOF st) := by
   unfold lexEOF
   split
-  · refine Or.inr ⟨⟨[], ?_⟩, ?_, Or.inl h.eofnone⟩
+  · refine ⟨⟨[], ?_⟩, ?_, Or.inl h.eofnone⟩
     · exact h.core.transfer rfl rfl rfl h.core.prev_le rfl rfl rfl
     · exact h.tab.frame ⟨rfl, rfl, rfl, rfl, rfl, rfl, rfl, rfl, Nat.le_refl _⟩
   · obtain ⟨hc, ht, hm, he, hidx, hpos, _, _⟩ := beginIter_spec h
@@ -1705,7 +1501,7 @@ theorem lexEOF_spec {data : List UInt8} (st : St) (l : List Rn) (h : Inv data st
     simp only [hts]
     have hp : st.pos = data.length := by have := h.core.pos_eq; simpa using this
     have hmark : (beginIter st).mark = (beginIter st).pos := by simp [beginIter]
-    refine Or.inr ⟨⟨[], hc'.transfer rfl rfl rfl hc'.prev_le rfl rfl rfl⟩, ?_, Or.inr ?_⟩
+    refine ⟨⟨[], hc'.transfer rfl rfl rfl hc'.prev_le rfl rfl rfl⟩, ?_, Or.inr ?_⟩
     · exact htab.transfer rfl rfl rfl rfl
     · refine ⟨by show st'.pos = data.length; rw [hpos', hpos, hp], (beginIter st).fi.items.length, rfl, ?_, ?_⟩
       · show _ = st'.fi.items.length; rw [hitems]; simp
@@ -1718,7 +1514,7 @@ theorem lexGo_done (s : Nat) (st : St) (rs : List Rn) (h : st.done = true) : lex
   | cons c rs => cases s <;> simp [lexGo, h]
 
 theorem lexGo_spec {data : List UInt8} (rs : List Rn) : ∀ (s : Nat) (st : St), s ≤ rs.length →
-    Inv data st (rs.drop s) → Final data rs (lexGo s st rs) := by
+    Inv data st (rs.drop s) → Final data (lexGo s st rs) := by
   induction rs with
   | nil =>
     intro s st hs h
@@ -1726,102 +1522,51 @@ theorem lexGo_spec {data : List UInt8} (rs : List Rn) : ∀ (s : Nat) (st : St),
     subst hs0
     simp only [lexGo]
     split
-    · exact Or.inr ⟨⟨[], by simpa using h.core⟩, h.tab, Or.inl h.eofnone⟩
-    · exact lexEOF_spec st [] (by simpa using h)
+    · exact ⟨⟨[], by simpa using h.core⟩, h.tab, Or.inl h.eofnone⟩
+    · exact lexEOF_spec st (by simpa using h)
   | cons c rs ih =>
     intro s st hs h
-    have lift : ∀ st', Final data rs st' → Final data (c :: rs) st' := by
-      intro st' hf
-      rcases hf with ⟨hp, hv⟩ | hf
-      · exact Or.inl ⟨hp, fun hv' => hv (fun x hx => hv' x (by simp [hx]))⟩
-      · exact Or.inr hf
     cases s with
     | succ s =>
       simp only [lexGo]
       split
-      · exact Or.inr ⟨⟨_, h.core⟩, h.tab, Or.inl h.eofnone⟩
-      · exact lift _ (ih s st (by simpa using hs) (by simpa using h))
+      · exact ⟨⟨_, h.core⟩, h.tab, Or.inl h.eofnone⟩
+      · exact ih s st (by simpa using hs) (by simpa using h)
     | zero =>
       simp only [lexGo]
       split
-      · exact Or.inr ⟨⟨_, h.core⟩, h.tab, Or.inl h.eofnone⟩
+      · exact ⟨⟨_, h.core⟩, h.tab, Or.inl h.eofnone⟩
       · simp only [List.drop_zero] at h
-        rcases lexIter_spec st c rs h with hp | ⟨k, hk1, hk2, hk3, hk4⟩
-        · rw [lexGo_done _ _ _ hp.1.2]
-          exact Or.inl hp
-        · by_cases hk0 : k = 0
-          · rw [lexGo_done _ _ _ (hk4 hk0)]
-            subst hk0
-            exact Or.inr ⟨⟨_, hk3.core⟩, hk3.tab, Or.inl hk3.eofnone⟩
-          · have hskip : (lexIter st c rs).idx - st.idx - 1 = k - 1 := by omega
-            rw [hskip]
-            have hdrop : (c :: rs).drop k = rs.drop (k - 1) := by
-              obtain ⟨j, hj⟩ : ∃ j, k = j + 1 := ⟨k - 1, by omega⟩
-              subst hj; simp
-            rw [hdrop] at hk3
-            exact lift _ (ih (k - 1) _ (by simp at hk1; omega) hk3)
-
+        obtain ⟨k, hk1, hk2, hk3, hk4⟩ := lexIter_spec st c rs h
+        by_cases hk0 : k = 0
+        · rw [lexGo_done _ _ _ (hk4 hk0)]
+          subst hk0
+          exact ⟨⟨_, hk3.core⟩, hk3.tab, Or.inl hk3.eofnone⟩
+        · have hskip : (lexIter st c rs).idx - st.idx - 1 = k - 1 := by omega
+          rw [hskip]
+          have hdrop : (c :: rs).drop k = rs.drop (k - 1) := by
+            obtain ⟨j, hj⟩ : ∃ j, k = j + 1 := ⟨k - 1, by omega⟩
+            subst hj; simp
+          rw [hdrop] at hk3
+          exact ih (k - 1) _ (by simp at hk1; omega) hk3
 
 theorem inv_init (data : List UInt8) (lenient : Bool) : Inv data (initSt data lenient) (runes data) := by
   refine ⟨?_, ?_, rfl⟩
   · refine { hdata := rfl, pos_eq := ?_, data_eq := ?_, rok := runes_ok data, prev_le := Nat.le_refl _,
-             lines_hd := ⟨[], rfl⟩, lines_le := ?_, lines_clean := ?_, errs_ok := ?_, herr_errs := ?_,
+             lines_hd := ⟨[], rfl⟩, lines_le := ?_, lines_eq := ?_, errs_ok := ?_, herr_errs := ?_,
              nopanic := rfl }
     · simp [initSt, flat_runes]
     · simp [initSt, flat_runes]
     · intro l hl; simp [initSt, FileInfo.new] at hl; subst hl; exact Nat.le_refl _
-    · intro _ _; simp [initSt, FileInfo.new, lineStartsFrom]
+    · simp [initSt, FileInfo.new, lineStartsFrom]
     · intro e he; simp [initSt] at he
     · intro h; simp [initSt] at h
   · refine ⟨?_, ?_, ?_, ?_, ?_, ?_⟩ <;> simp [initSt, FileInfo.new, ItemsOk, endFrom]
 
-/-- **the lexer invariant, whole run**: the state in which "call `Lex` until it returns 0" stops -/
-theorem lexAll_final (lenient : Bool) (bs : List UInt8) :
-    Final (stripBOM bs) (runes (stripBOM bs)) (lexAll lenient bs) := by
+/-- **the lexer invariant, whole run**: the state in which "call `Lex` until it returns 0" stops.
+    In particular the lexer model never panics (`Core.nopanic`). -/
+theorem lexAll_final (lenient : Bool) (bs : List UInt8) : Final (stripBOM bs) (lexAll lenient bs) := by
   unfold lexAll
   exact lexGo_spec (runes (stripBOM bs)) 0 _ (Nat.zero_le _) (by simpa using inv_init (stripBOM bs) lenient)
-
-
-/-! ### well-formed input -/
-
-theorem runesGo_decoded (s : Nat) (bs : List UInt8) :
-    ∀ c ∈ runesGo s bs, ∃ l : List UInt8, l ≠ [] ∧ c.r = (Utf8.decodeRune l).1 ∧ c.w = (Utf8.decodeRune l).2 := by
-  induction bs generalizing s with
-  | nil => simp [runesGo]
-  | cons b bs ih =>
-    cases s with
-    | succ s => simpa [runesGo] using ih s
-    | zero =>
-      intro c hc
-      simp only [runesGo, List.mem_cons] at hc
-      rcases hc with rfl | hc
-      · refine ⟨b :: bs, by simp, rfl, ?_⟩
-        have := Utf8.decodeRune_width_le (b :: bs)
-        simp only [Rn.w, List.length_take]
-        omega
-      · exact ih _ c hc
-
-/-- no byte of the input is an ill-formed UTF-8 sequence (decoded as width 1 but not ASCII) -/
-def WellFormedUtf8 (bs : List UInt8) : Prop := ∀ c ∈ runes bs, c.w = 1 → c.r < 0x80
-
-theorem valid_of_wellformed (bs : List UInt8) (h : WellFormedUtf8 bs) : Valid (runes bs) := by
-  intro c hc
-  obtain ⟨l, hl, hr, hw⟩ := runesGo_decoded 0 bs c hc
-  have h1 := Utf8.decodeRune_width_pos l hl
-  have h4 := Utf8.decodeRune_width_le4 l
-  obtain ⟨r2, r3, r4⟩ := Utf8.decodeRune_range l
-  obtain ⟨e1, e2, e3, e4⟩ := Utf8.encodeRune_len c.r
-  have hwf := h c hc
-  simp only [enc]
-  rw [← hr] at r2 r3 r4
-  rw [← hw] at r2 r3 r4 h1 h4
-  by_cases w1 : c.w = 1
-  · rw [w1]; exact e1 (hwf w1)
-  · by_cases w2 : c.w = 2
-    · obtain ⟨a, b⟩ := r2 w2; rw [w2]; exact e2 a b
-    · by_cases w3 : c.w = 3
-      · obtain ⟨a, b, c'⟩ := r3 w3; rw [w3]; exact e3 a b c'
-      · have w4 : c.w = 4 := by omega
-        obtain ⟨a, b⟩ := r4 w4; rw [w4]; exact e4 a b
 
 end PCV.Lemmas.LexInv
